@@ -3,16 +3,24 @@ C05 — the bytes validators sign bind every value the remote bridge contract is
 message ids are unique across all queues and strictly increase.
 
 Model: `Model/SignBytes.lean` on top of the ABI encoder model `Model/Abi.lean`; the only facts
-used about the encoder are `Abi.encodeArgs_injective` / `Abi.calldata_injective`
-(`Props/Abi.lean`).
+used about the encoder are `Abi.encodeArgs_injective` / `Abi.calldata_injective` /
+`Abi.tuple_head_length` (`Props/Abi.lean`).
 
 Hashing.  keccak256 is an abstract `H : List UInt8 → Nat`; the 32-byte digest is
-`digest H b = H b % 2^256`.  A digest cannot be injective (pigeonhole), therefore collision
-freedom is never a global hypothesis.  It appears in two equivalent, non-vacuous forms:
-* pointwise: `NoColl H a b` for exactly the pre-images the statement talks about;
-* as a disjunct of the conclusion: `… ∨ Collision H` ("or we exhibit two different byte
-  strings with the same digest").
-The literal `Function.Injective (digest H)` forms are given as corollaries for completeness.
+`digest H b = H b % 2^256`.  A digest is never injective (`digest_not_injective`, pigeonhole), so
+neither `Function.Injective (digest H)` nor "… ∨ some collision exists somewhere" may appear in a
+statement: the first is unsatisfiable, the second is always true.  Collision freedom is an
+EXTERNAL ASSUMPTION that enters only pointwise, for exactly the two pre-images a statement is
+about:
+* as a hypothesis `NoColl H a b` (digests equal → byte strings equal), or
+* as the local disjunct `CollAt H a b` (`a ≠ b` and their digests are equal) of a conclusion.
+Both are about two named byte strings; `¬ NoColl H a b ↔ CollAt H a b`.
+
+Layers.  ABI level (`…Fields`): per scheme "equal signing bytes ⇒ every field equal (modulo the
+two documented defaults) ⇒ equal delivered argument list".  Go level (`GoItem`): one theorem over
+all action types and batches on the real entry points `goSignBytes` / `goBatchCheckpoint`,
+including their `panic` / `none` branches.  Ids: statements about the ids RETURNED along arbitrary
+histories (`freshIds`, `idTrace`), with the state fields tied to the history.
 -/
 import PalomaModel.Model.SignBytes
 import PalomaModel.Props.Abi
@@ -23,8 +31,29 @@ open Paloma.Abi
 /-- the two byte strings do not collide under the digest -/
 def NoColl (H : Hash) (a b : Bytes) : Prop := digest H a = digest H b → a = b
 
-/-- a collision of the 32-byte digest exists -/
-def Collision (H : Hash) : Prop := ∃ a b : Bytes, a ≠ b ∧ digest H a = digest H b
+/-- the two byte strings ARE a collision of the digest (local: about `a` and `b` only) -/
+def CollAt (H : Hash) (a b : Bytes) : Prop := a ≠ b ∧ digest H a = digest H b
+
+/-! ### normal forms: a message up to the two documented signing defaults
+
+`estimate = 0` is signed as 300000 (`effEstimate`), `Fees = nil` as (100000, 100000, 100000)
+(`feesOrDefault`).  `X.norm` replaces the field by what is signed and leaves every other field
+alone; `X.norm f = X.norm g` says: ALL fields of the two records agree, the defaulted one up to
+its default.  The `…_mustBind_eq_iff` theorems show that the hand-written `mustBind` lists say
+exactly this — no field of a record is missing from its list. -/
+
+def UV.norm (f : UVFields) : UVFields := { f with estimate := effEstimate f.estimate }
+def SLC.norm (f : SLCFields) : SLCFields := { f with fees := some (feesOrDefault f.fees) }
+def USC.norm (f : USCFields) : USCFields := { f with fees := some (feesOrDefault f.fees) }
+def CH.norm (f : CHFields) : CHFields := { f with estimate := effEstimate f.estimate }
+def Batch.norm (f : BatchFields) : BatchFields := { f with estimate := effEstimate f.estimate }
+
+/-- `bytes.Repeat` with a negative count: the only way signing (and `VerifyAgainstTX`) panics -/
+def senderTooLong (m : GoMsg) : Bool :=
+  match m.action with
+  | .submitLogicCall _ _ _ s _ => decide (s.length > 32)
+  | .uploadUserSmartContract _ _ _ s _ => decide (s.length > 32)
+  | _ => false
 
 /-! ## helper lemmas -/
 section Lemmas
@@ -32,15 +61,21 @@ section Lemmas
 theorem U64_lt_W256 : U64 < W256 := by decide
 theorem U64_pos : 0 < U64 := by decide
 
-theorem noColl_or_collision (H : Hash) (a b : Bytes) : NoColl H a b ∨ Collision H := by
+theorem noColl_or_collAt (H : Hash) (a b : Bytes) : NoColl H a b ∨ CollAt H a b := by
   by_cases h : a = b
   · exact .inl fun _ => h
   · by_cases hd : digest H a = digest H b
-    · exact .inr ⟨a, b, h, hd⟩
+    · exact .inr ⟨h, hd⟩
     · exact .inl fun e => absurd e hd
 
-theorem noColl_of_injective (H : Hash) (hinj : Function.Injective (digest H)) (a b : Bytes) :
-    NoColl H a b := fun h => hinj h
+theorem not_noColl_iff_collAt (H : Hash) (a b : Bytes) : ¬ NoColl H a b ↔ CollAt H a b := by
+  constructor
+  · intro h
+    rcases noColl_or_collAt H a b with h1 | h1
+    · exact absurd h1 h
+    · exact h1
+  · rintro ⟨hne, hd⟩ h
+    exact hne (h hd)
 
 theorem digest_lt (H : Hash) (b : Bytes) : digest H b < W256 :=
   Nat.mod_lt _ (by decide)
@@ -304,9 +339,11 @@ structure IdInv (s : IdSt) : Prop where
   bounded : ∀ i ∈ s.issued, 1 ≤ i ∧ i ≤ s.counter
   liveIssued : ∀ p ∈ s.live, p.2 ∈ s.issued
   nodup : (s.live.map (·.2)).Nodup
+  /-- the stored counter (`GetLastID`) is the newest id handed out, 0 before the first -/
+  top : (s.issued = [] ∧ s.counter = 0) ∨ s.issued.head? = some s.counter
 
 theorem idInv_init : IdInv {} :=
-  ⟨List.Pairwise.nil, by simp, by simp, by simp⟩
+  ⟨List.Pairwise.nil, by simp, by simp, by simp, .inl ⟨rfl, rfl⟩⟩
 
 theorem idStep_counter_le (s : IdSt) (op : IdOp) (h : s.counter + 1 < U64) :
     s.counter ≤ (idStep s op).1.counter ∧ (idStep s op).1.counter ≤ s.counter + 1 := by
@@ -332,7 +369,7 @@ theorem idStep_inv (s : IdSt) (op : IdOp) (hi : IdInv s) (h : s.counter + 1 < U6
     · split <;> exact hi
     · rw [Nat.mod_eq_of_lt h]
       simp only [Nat.succ_ne_zero, ↓reduceIte]
-      refine ⟨?_, ?_, ?_, ?_⟩
+      refine ⟨?_, ?_, ?_, ?_, .inr rfl⟩
       · refine List.Pairwise.cons ?_ hi.sorted
         intro i him
         have := (hi.bounded i him).2
@@ -361,7 +398,7 @@ theorem idStep_inv (s : IdSt) (op : IdOp) (hi : IdInv s) (h : s.counter + 1 < U6
   | remove q id =>
     simp only
     split
-    · refine ⟨hi.sorted, hi.bounded, ?_, ?_⟩
+    · refine ⟨hi.sorted, hi.bounded, ?_, ?_, hi.top⟩
       · intro p hp
         exact hi.liveIssued p (List.mem_filter.1 hp).1
       · exact List.Nodup.sublist (List.Sublist.map _ List.filter_sublist) hi.nodup
@@ -377,6 +414,231 @@ theorem idRun_inv : ∀ (ops : List IdOp) (s : IdSt), IdInv s → s.counter + op
     have := idRun_inv ops (idStep s op).1 (idStep_inv s op hi h1) (by omega)
     simp only [idRun, List.length_cons]
     exact ⟨this.1, by omega⟩
+
+/-! ### pigeonhole: a 32-byte digest is never injective -/
+
+theorem pigeonhole : ∀ (n : Nat) (f : Nat → Nat), (∀ i, i ≤ n → f i < n) →
+    ∃ i j, i < j ∧ j ≤ n ∧ f i = f j := by
+  intro n
+  induction n with
+  | zero => intro f h; exact absurd (h 0 (Nat.le_refl _)) (Nat.not_lt_zero _)
+  | succ n ih =>
+    intro f h
+    by_cases hex : ∃ i, i ≤ n ∧ f i = f (n + 1)
+    · obtain ⟨i, hi, e⟩ := hex
+      exact ⟨i, n + 1, by omega, Nat.le_refl _, e⟩
+    · have hno : ∀ i, i ≤ n → f i ≠ f (n + 1) := fun i hi e => hex ⟨i, hi, e⟩
+      let g : Nat → Nat := fun i => if f i = n then f (n + 1) else f i
+      have hg : ∀ i, i ≤ n → g i < n := by
+        intro i hi
+        have h1 := h i (by omega)
+        have h2 := h (n + 1) (Nat.le_refl _)
+        have h3 := hno i hi
+        show (if f i = n then f (n + 1) else f i) < n
+        split <;> omega
+      obtain ⟨i, j, hij, hj, e⟩ := ih g hg
+      have e' : (if f i = n then f (n + 1) else f i) = (if f j = n then f (n + 1) else f j) := e
+      have hi' : i ≤ n := by omega
+      refine ⟨i, j, hij, by omega, ?_⟩
+      by_cases a : f i = n <;> by_cases b : f j = n
+      · omega
+      · rw [if_pos a, if_neg b] at e'; exact absurd e'.symm (hno j hj)
+      · rw [if_neg a, if_pos b] at e'; exact absurd e' (hno i hi')
+      · rw [if_neg a, if_neg b] at e'; exact e'
+
+/-! ### big-endian round trip, and what `bytecode ++ be64(id)` can be -/
+
+theorem natOfBytes_eq_beNat (b : Bytes) : natOfBytes b = beNat b := rfl
+
+theorem beBytes_beNat : ∀ (k : Nat) (l : Bytes), l.length = k → beBytes k (beNat l) = l := by
+  intro k
+  induction k with
+  | zero =>
+    intro l h
+    cases l with
+    | nil => rfl
+    | cons _ _ => simp at h
+  | succ k ih =>
+    intro l h
+    have hne : l ≠ [] := by
+      intro e
+      rw [e] at h
+      simp at h
+    have hl := (List.dropLast_concat_getLast hne).symm
+    generalize l.dropLast = init at hl
+    generalize l.getLast hne = x at hl
+    subst hl
+    have hlen : init.length = k := by simpa using h
+    rw [beNat_append_singleton, beBytes]
+    have hx : x.toNat < 256 := x.toNat_lt
+    have h1 : (beNat init * 256 + x.toNat) / 256 = beNat init := by omega
+    have h2 : (beNat init * 256 + x.toNat) % 256 = x.toNat := by omega
+    rw [h1, h2, ih init hlen]
+    simp
+
+theorem be8_natOfBytes (t : Bytes) (h : t.length = 8) : be8 (natOfBytes t) = t :=
+  beBytes_beNat 8 t h
+
+theorem natOfBytes_lt_U64 (t : Bytes) (h : t.length = 8) : natOfBytes t < U64 := by
+  have := natOfBytes_lt t
+  rw [h] at this
+  exact this
+
+theorem encodeArgs_length_ge (ts : List Ty) (vs : List V) (h : hasTypeArgs ts vs = true) :
+    headsSize ts ≤ (encodeArgs ts vs).length := by
+  have := tuple_head_length ts vs (headsSize ts) h
+  simp only [encodeArgs, encode, layout, List.length_append]
+  omega
+
+theorem sel_pre_length_ge (sel : Bytes) (ts : List Ty) (vs : List V) (hs : sel.length = 4)
+    (hh : 4 ≤ headsSize ts) (h : hasTypeArgs ts vs = true) : 8 ≤ (sel ++ encodeArgs ts vs).length := by
+  have := encodeArgs_length_ge ts vs h
+  rw [List.length_append, hs]
+  omega
+
+/-! ### id counter: the log and the returned ids -/
+
+theorem idRun_append (a : List IdOp) : ∀ (s : IdSt) (b : List IdOp),
+    idRun s (a ++ b) = idRun (idRun s a) b := by
+  induction a with
+  | nil => intro s b; rfl
+  | cons op a ih => intro s b; simp only [List.cons_append, idRun]; exact ih _ b
+
+theorem freshIds_append (a : List IdOp) : ∀ (s : IdSt) (b : List IdOp),
+    freshIds s (a ++ b) = freshIds s a ++ freshIds (idRun s a) b := by
+  induction a with
+  | nil => intro s b; rfl
+  | cons op a ih =>
+    intro s b
+    simp only [List.cons_append, freshIds, idRun, List.append_assoc]
+    rw [ih]
+
+theorem idStep_issued (s : IdSt) (op : IdOp) :
+    (idStep s op).1.issued = freshOf op (idStep s op).2 ++ s.issued := by
+  unfold idStep freshOf
+  cases op with
+  | put q r =>
+    simp only
+    by_cases hr : r = 0
+    · subst hr
+      simp only [ne_eq, not_true_eq_false, ↓reduceIte]
+      split <;> simp
+    · simp only [ne_eq, hr, not_false_eq_true, ↓reduceIte]
+      split <;> simp
+  | remove q id =>
+    simp only
+    split <;> simp
+
+theorem idRun_issued : ∀ (ops : List IdOp) (s : IdSt),
+    (idRun s ops).issued = (freshIds s ops).reverse ++ s.issued
+  | [], s => by simp [idRun, freshIds]
+  | op :: ops, s => by
+    simp only [idRun, freshIds]
+    rw [idRun_issued ops, idStep_issued, List.reverse_append, List.append_assoc]
+    congr 1
+    -- `freshOf` has at most one element
+    unfold freshOf
+    cases op with
+    | put q r =>
+      simp only
+      split
+      · split <;> simp
+      · simp
+    | remove q id => simp
+
+theorem idStep_live_sub (s : IdSt) (op : IdOp) (h : ∀ p ∈ s.live, p.2 ∈ s.issued) :
+    ∀ p ∈ (idStep s op).1.live, p.2 ∈ (idStep s op).1.issued := by
+  unfold idStep
+  cases op with
+  | put q r =>
+    simp only
+    split
+    · split <;> exact h
+    · split
+      · exact h
+      · intro p hp
+        simp only [List.mem_cons] at hp ⊢
+        rcases hp with rfl | hp
+        · exact .inl rfl
+        · exact .inr (h p hp)
+  | remove q id =>
+    simp only
+    split
+    · intro p hp
+      exact h p (List.mem_filter.1 hp).1
+    · exact h
+
+theorem idRun_live_sub : ∀ (ops : List IdOp) (s : IdSt), (∀ p ∈ s.live, p.2 ∈ s.issued) →
+    ∀ p ∈ (idRun s ops).live, p.2 ∈ (idRun s ops).issued
+  | [], _, h => h
+  | op :: ops, s, h => idRun_live_sub ops _ (idStep_live_sub s op h)
+
+theorem idStep_live_mem (s : IdSt) (op : IdOp) (q id : Nat) (h : (q, id) ∈ (idStep s op).1.live) :
+    (q, id) ∈ s.live ∨ (op = .put q 0 ∧ (idStep s op).2 = .ok id) := by
+  unfold idStep at h ⊢
+  cases op with
+  | put q' r =>
+    simp only at h ⊢
+    by_cases hr : r = 0
+    · subst hr
+      simp only [ne_eq, not_true_eq_false, ↓reduceIte] at h ⊢
+      split at h
+      · exact .inl h
+      · rename_i hn
+        simp only [List.mem_cons, Prod.mk.injEq] at h
+        rcases h with ⟨rfl, rfl⟩ | h
+        · right
+          simp [hn]
+        · exact .inl h
+    · simp only [ne_eq, hr, not_false_eq_true, ↓reduceIte] at h
+      split at h <;> exact .inl h
+  | remove q' id' =>
+    simp only at h
+    split at h
+    · exact .inl (List.mem_filter.1 h).1
+    · exact .inl h
+
+theorem idRun_live_provenance : ∀ (ops : List IdOp) (s : IdSt) (q id : Nat),
+    (q, id) ∈ (idRun s ops).live →
+    (q, id) ∈ s.live ∨
+      ∃ pre post, ops = pre ++ .put q 0 :: post ∧ (idStep (idRun s pre) (.put q 0)).2 = .ok id
+  | [], _, _, _, h => .inl h
+  | op :: ops, s, q, id, h => by
+    simp only [idRun] at h
+    rcases idRun_live_provenance ops _ q id h with h1 | ⟨pre, post, e, hres⟩
+    · rcases idStep_live_mem s op q id h1 with h2 | ⟨rfl, hres⟩
+      · exact .inl h2
+      · exact .inr ⟨[], ops, rfl, hres⟩
+    · exact .inr ⟨op :: pre, post, by rw [e]; rfl, hres⟩
+
+/-! ### small helpers for the Go-level theorems -/
+
+theorem fees_ext {a b : Fees} (h1 : a.relayer = b.relayer) (h2 : a.community = b.community)
+    (h3 : a.security = b.security) : a = b := by
+  cases a; cases b; simp_all
+
+theorem goItemDigest_eq_some {H : Hash} {a : GoItem} {d : Nat} :
+    goItemDigest H a = some d ↔ ∃ p, goItemPreimage H a = some p ∧ d = digest H p := by
+  unfold goItemDigest
+  cases goItemPreimage H a with
+  | none => simp
+  | some p => simp [eq_comm]
+
+theorem kindSel_mem (k : Kind) (h : k ≠ .up) : kindSel k ∈ schemeSelectors := by
+  cases k <;> first | exact absurd rfl h | decide
+
+theorem kindSel_inj {k k' : Kind} (h : k ≠ .up) (h' : k' ≠ .up) (e : kindSel k = kindSel k') : k = k' := by
+  cases k <;> cases k' <;>
+    first | rfl | exact absurd rfl h | exact absurd rfl h' | (exfalso; revert e; decide)
+
+theorem goCheckpointPre_some_kind (a : GoItem) (q : Bytes) (h : goCheckpointPre a = some q) :
+    a.kind = .uv := by
+  cases a with
+  | batch ts b => simp [goCheckpointPre] at h
+  | msg m ctor =>
+    obtain ⟨ts, rel, id, est, act⟩ := m
+    cases act <;> simp [goCheckpointPre] at h
+    rfl
 
 end Lemmas
 
@@ -405,7 +667,8 @@ theorem uv_mustBind_covered (H : Hash) (f g : UVFields) (hf : UV.wf f = true) (h
 /-- **uv_delivered_determined_by_signed.** C05 for update-valset at the level of argument lists:
 equal signed tuples force equal delivered tuples (the valset is inside the checkpoint hash, hence
 the collision hypothesis) provided both messages carry an elected estimate; see
-`uv_estimate_default_collision` for why the proviso is needed. -/
+`estimate_default_collision` / `uv_estimate_default_not_delivered` for why the proviso is needed
+and `offered_estimate_elected` for why every delivered message satisfies it. -/
 theorem uv_delivered_determined_by_signed (H : Hash) (f g : UVFields)
     (hf : UV.wf f = true) (hg : UV.wf g = true)
     (hin : NoColl H (UV.checkpointPre f) (UV.checkpointPre g))
@@ -510,7 +773,8 @@ theorem ch_delivered_determined_by_signed (f g : CHFields)
 /-! ### UploadSmartContract -/
 
 /-- **up_binds_bytecode_and_id.** The compass-deployment signature covers exactly the bytecode and
-the message id (`keccak256(bytecode ++ be64(id))`). -/
+the message id (`keccak256(bytecode ++ be64(id))`) — and nothing else that is delivered
+(`up_delivered_not_bound`), with no domain separation (`up_preimage_covers`). -/
 theorem up_binds_bytecode_and_id (H : Hash) (f g : UPFields) (hf : UP.wf f = true) (hg : UP.wf g = true)
     (hout : NoColl H (UP.preimage f) (UP.preimage g))
     (h : UP.signBytes H f = UP.signBytes H g) : f = g := by
@@ -548,79 +812,248 @@ theorem uv_lists_bound (f g : UVFields) (h : UV.mustBind f = UV.mustBind g) :
   simp only [UV.mustBind, List.cons.injEq] at h
   exact ⟨words_inj h.1, words_inj h.2.1⟩
 
-/-! ### "changing any one of these changes the signing bytes", collision-explicit form -/
+/-- **batch_delivered_determined_by_signed.** Equal signed tuples of two batches force equal
+`submit_batch` argument lists, provided both carry an elected estimate (see
+`batch_estimate_default_collision`; discharged for offered batches by `offered_estimate_elected`). -/
+theorem batch_delivered_determined_by_signed (f g : BatchFields)
+    (hef : f.estimate ≠ 0) (heg : g.estimate ≠ 0)
+    (h : Batch.signedVals f = Batch.signedVals g) : Batch.deliveredVals f = Batch.deliveredVals g := by
+  simp only [Batch.signedVals, List.cons.injEq, V.word.injEq, V.seq.injEq, and_true] at h
+  obtain ⟨h1, ⟨h2, h3⟩, h4, -, h6, h7, h8⟩ := h
+  simp only [effEstimate, hef, heg, ↓reduceIte] at h8
+  simp only [Batch.deliveredVals, h1, h2, h3, h4, h6, h7, h8]
+
+/-! ### the `mustBind` lists are complete: they determine every field of the record -/
+
+/-- **uv_mustBind_eq_iff.** The hand-written list for `UpdateValset` is equal for two messages iff
+ALL six fields of the records agree (the estimate up to its signing default). -/
+theorem uv_mustBind_eq_iff (f g : UVFields) : UV.mustBind f = UV.mustBind g ↔ UV.norm f = UV.norm g := by
+  simp only [UV.mustBind, UV.norm, List.cons.injEq, V.word.injEq, and_true, UVFields.mk.injEq]
+  constructor
+  · rintro ⟨h1, h2, h3, h4, h5, h6⟩
+    exact ⟨words_inj h1, words_inj h2, h3, h4, h5, h6⟩
+  · rintro ⟨h1, h2, h3, h4, h5, h6⟩
+    exact ⟨by rw [h1], by rw [h2], h3, h4, h5, h6⟩
+
+/-- **slc_mustBind_eq_iff.** -/
+theorem slc_mustBind_eq_iff (f g : SLCFields) : SLC.mustBind f = SLC.mustBind g ↔ SLC.norm f = SLC.norm g := by
+  simp only [SLC.mustBind, SLC.norm, List.cons.injEq, V.word.injEq, V.bytes.injEq, and_true,
+    SLCFields.mk.injEq, Option.some.injEq]
+  constructor
+  · rintro ⟨h1, h2, h3, h4, h5, h6, h7, h8, h9, h10⟩
+    exact ⟨h1, h2, fees_ext h3 h4 h5, h6, h7, h8, h9, h10⟩
+  · rintro ⟨h1, h2, h3, h6, h7, h8, h9, h10⟩
+    exact ⟨h1, h2, by rw [h3], by rw [h3], by rw [h3], h6, h7, h8, h9, h10⟩
+
+/-- **usc_mustBind_eq_iff.** -/
+theorem usc_mustBind_eq_iff (f g : USCFields) : USC.mustBind f = USC.mustBind g ↔ USC.norm f = USC.norm g := by
+  simp only [USC.mustBind, USC.norm, List.cons.injEq, V.word.injEq, V.bytes.injEq, and_true,
+    USCFields.mk.injEq, Option.some.injEq]
+  constructor
+  · rintro ⟨h1, h2, h3, h4, h5, h6, h7, h8, h9, h10⟩
+    exact ⟨h1, h2, fees_ext h3 h4 h5, h6, h7, h8, h9, h10⟩
+  · rintro ⟨h1, h2, h3, h6, h7, h8, h9, h10⟩
+    exact ⟨h1, h2, by rw [h3], by rw [h3], by rw [h3], h6, h7, h8, h9, h10⟩
+
+/-- **ch_mustBind_eq_iff.** -/
+theorem ch_mustBind_eq_iff (f g : CHFields) : CH.mustBind f = CH.mustBind g ↔ CH.norm f = CH.norm g := by
+  simp only [CH.mustBind, CH.norm, List.cons.injEq, V.word.injEq, V.seq.injEq, and_true, CHFields.mk.injEq]
+  constructor
+  · rintro ⟨h1, h2, h3, h4⟩
+    exact ⟨map_callV_inj h1, h2, h3, h4⟩
+  · rintro ⟨h1, h2, h3, h4⟩
+    exact ⟨by rw [h1], h2, h3, h4⟩
+
+/-- **batch_mustBind_eq_iff.** -/
+theorem batch_mustBind_eq_iff (f g : BatchFields) :
+    Batch.mustBind f = Batch.mustBind g ↔ Batch.norm f = Batch.norm g := by
+  simp only [Batch.mustBind, Batch.norm, List.cons.injEq, V.word.injEq, and_true, BatchFields.mk.injEq]
+  constructor
+  · rintro ⟨h1, h2, h3, h4, h5, h6, h7, h8⟩
+    exact ⟨h1, words_inj h2, words_inj h3, h4, h5, h6, h7, h8⟩
+  · rintro ⟨h1, h2, h3, h4, h5, h6, h7, h8⟩
+    exact ⟨h1, by rw [h2], by rw [h3], h4, h5, h6, h7, h8⟩
+
+/-- `norm` only touches the defaulted field: with an elected estimate / explicit fees it is the
+identity, so there the theorems below speak about the records themselves -/
+theorem norm_id :
+    (∀ f : UVFields, f.estimate ≠ 0 → UV.norm f = f) ∧
+    (∀ f : SLCFields, f.fees ≠ none → SLC.norm f = f) ∧
+    (∀ f : USCFields, f.fees ≠ none → USC.norm f = f) ∧
+    (∀ f : CHFields, f.estimate ≠ 0 → CH.norm f = f) ∧
+    (∀ f : BatchFields, f.estimate ≠ 0 → Batch.norm f = f) := by
+  refine ⟨?_, ?_, ?_, ?_, ?_⟩
+  · intro f h; cases f; simp_all [UV.norm, effEstimate]
+  · intro f h
+    cases f with
+    | mk c p fe s i t d r =>
+      cases fe with
+      | none => exact absurd rfl h
+      | some x => rfl
+  · intro f h
+    cases f with
+    | mk c p fe s i t d r =>
+      cases fe with
+      | none => exact absurd rfl h
+      | some x => rfl
+  · intro f h; cases f; simp_all [CH.norm, effEstimate]
+  · intro f h; cases f; simp_all [Batch.norm, effEstimate]
+
+/-! ### hash layer ∘ argument layer: equal signing bytes ⇒ all fields ⇒ equal delivered arguments -/
+
+/-- **signBytes_binds_all_fields.** For every ABI scheme: equal signing bytes, and no collision AT
+the two pre-images involved, force ALL fields of the two records to agree (up to the signing
+default of the estimate / the fees).  ASSUMPTION: the `NoColl` hypotheses (keccak). -/
+theorem signBytes_binds_all_fields (H : Hash) :
+    (∀ f g : UVFields, UV.wf f = true → UV.wf g = true →
+        NoColl H (UV.preimage H f) (UV.preimage H g) → NoColl H (UV.checkpointPre f) (UV.checkpointPre g) →
+        UV.signBytes H f = UV.signBytes H g → UV.norm f = UV.norm g) ∧
+    (∀ f g : SLCFields, SLC.wf f = true → SLC.wf g = true → NoColl H (SLC.preimage f) (SLC.preimage g) →
+        SLC.signBytes H f = SLC.signBytes H g → SLC.norm f = SLC.norm g) ∧
+    (∀ f g : USCFields, USC.wf f = true → USC.wf g = true → NoColl H (USC.preimage f) (USC.preimage g) →
+        USC.signBytes H f = USC.signBytes H g → USC.norm f = USC.norm g) ∧
+    (∀ f g : CHFields, CH.wf f = true → CH.wf g = true → NoColl H (CH.preimage f) (CH.preimage g) →
+        CH.signBytes H f = CH.signBytes H g → CH.norm f = CH.norm g) ∧
+    (∀ f g : BatchFields, Batch.wf f = true → Batch.wf g = true →
+        NoColl H (Batch.preimage f) (Batch.preimage g) →
+        Batch.signBytes H f = Batch.signBytes H g → Batch.norm f = Batch.norm g) :=
+  ⟨fun f g hf hg h1 h2 h => (uv_mustBind_eq_iff f g).1 (uv_mustBind_covered H f g hf hg h1 h2 h),
+   fun f g hf hg h1 h => (slc_mustBind_eq_iff f g).1 (slc_mustBind_covered H f g hf hg h1 h),
+   fun f g hf hg h1 h => (usc_mustBind_eq_iff f g).1 (usc_mustBind_covered H f g hf hg h1 h),
+   fun f g hf hg h1 h => (ch_mustBind_eq_iff f g).1 (ch_mustBind_covered H f g hf hg h1 h),
+   fun f g hf hg h1 h => (batch_mustBind_eq_iff f g).1 (batch_mustBind_covered H f g hf hg h1 h)⟩
+
+/-- the delivered argument list is a function of the normal form, for messages whose estimate is
+elected (fees: no proviso, both sides use `feesOrDefault`) -/
+theorem delivered_of_norm :
+    (∀ f g : UVFields, UV.norm f = UV.norm g → f.estimate ≠ 0 → g.estimate ≠ 0 →
+        UV.deliveredVals f = UV.deliveredVals g) ∧
+    (∀ f g : SLCFields, SLC.norm f = SLC.norm g → SLC.deliveredVals f = SLC.deliveredVals g) ∧
+    (∀ f g : USCFields, USC.norm f = USC.norm g → USC.deliveredVals f = USC.deliveredVals g) ∧
+    (∀ f g : CHFields, CH.norm f = CH.norm g → f.estimate ≠ 0 → g.estimate ≠ 0 →
+        CH.deliveredVals f = CH.deliveredVals g) ∧
+    (∀ f g : BatchFields, Batch.norm f = Batch.norm g → f.estimate ≠ 0 → g.estimate ≠ 0 →
+        Batch.deliveredVals f = Batch.deliveredVals g) := by
+  refine ⟨?_, ?_, ?_, ?_, ?_⟩
+  · intro f g h hf hg
+    simp only [UV.norm, UVFields.mk.injEq, effEstimate, hf, hg, ↓reduceIte] at h
+    obtain ⟨h1, h2, h3, -, h5, h6⟩ := h
+    simp only [UV.deliveredVals, UV.valsetV, h1, h2, h3, h5, h6]
+  · intro f g h
+    simp only [SLC.norm, SLCFields.mk.injEq, Option.some.injEq] at h
+    obtain ⟨h1, h2, h3, h4, h5, -, h7, h8⟩ := h
+    simp only [SLC.deliveredVals, h1, h2, h3, h4, h5, h7, h8]
+  · intro f g h
+    simp only [USC.norm, USCFields.mk.injEq, Option.some.injEq] at h
+    obtain ⟨h1, h2, h3, h4, h5, -, h7, h8⟩ := h
+    simp only [USC.deliveredVals, h1, h2, h3, h4, h5, h7, h8]
+  · intro f g h hf hg
+    simp only [CH.norm, CHFields.mk.injEq, effEstimate, hf, hg, ↓reduceIte] at h
+    obtain ⟨h1, h2, h3, h4⟩ := h
+    simp only [CH.deliveredVals, h1, h2, h3, h4]
+  · intro f g h hf hg
+    simp only [Batch.norm, BatchFields.mk.injEq, effEstimate, hf, hg, ↓reduceIte] at h
+    obtain ⟨h1, h2, h3, h4, -, h6, h7, h8⟩ := h
+    simp only [Batch.deliveredVals, h1, h2, h3, h4, h6, h7, h8]
+
+/-- **signBytes_binds_delivered.** The composition the property asks for, per ABI scheme:
+`signBytes f = signBytes g → deliveredVals f = deliveredVals g` — collected signatures authorise
+exactly one delivered argument list.  ASSUMPTIONS: `NoColl` at the pre-images involved (keccak);
+for the three schemes whose call carries a gas estimate, that it is elected on both sides
+(`offered_estimate_elected`: relayers are offered nothing else; `estimate_default_collision` and
+`uv_estimate_default_not_delivered` show the proviso cannot be dropped). -/
+theorem signBytes_binds_delivered (H : Hash) :
+    (∀ f g : UVFields, UV.wf f = true → UV.wf g = true →
+        NoColl H (UV.preimage H f) (UV.preimage H g) → NoColl H (UV.checkpointPre f) (UV.checkpointPre g) →
+        f.estimate ≠ 0 → g.estimate ≠ 0 →
+        UV.signBytes H f = UV.signBytes H g → UV.deliveredVals f = UV.deliveredVals g) ∧
+    (∀ f g : SLCFields, SLC.wf f = true → SLC.wf g = true → NoColl H (SLC.preimage f) (SLC.preimage g) →
+        SLC.signBytes H f = SLC.signBytes H g → SLC.deliveredVals f = SLC.deliveredVals g) ∧
+    (∀ f g : USCFields, USC.wf f = true → USC.wf g = true → NoColl H (USC.preimage f) (USC.preimage g) →
+        USC.signBytes H f = USC.signBytes H g → USC.deliveredVals f = USC.deliveredVals g) ∧
+    (∀ f g : CHFields, CH.wf f = true → CH.wf g = true → NoColl H (CH.preimage f) (CH.preimage g) →
+        f.estimate ≠ 0 → g.estimate ≠ 0 →
+        CH.signBytes H f = CH.signBytes H g → CH.deliveredVals f = CH.deliveredVals g) ∧
+    (∀ f g : BatchFields, Batch.wf f = true → Batch.wf g = true →
+        NoColl H (Batch.preimage f) (Batch.preimage g) → f.estimate ≠ 0 → g.estimate ≠ 0 →
+        Batch.signBytes H f = Batch.signBytes H g → Batch.deliveredVals f = Batch.deliveredVals g) := by
+  obtain ⟨a1, a2, a3, a4, a5⟩ := signBytes_binds_all_fields H
+  obtain ⟨d1, d2, d3, d4, d5⟩ := delivered_of_norm
+  exact ⟨fun f g hf hg h1 h2 e1 e2 h => d1 f g (a1 f g hf hg h1 h2 h) e1 e2,
+    fun f g hf hg h1 h => d2 f g (a2 f g hf hg h1 h),
+    fun f g hf hg h1 h => d3 f g (a3 f g hf hg h1 h),
+    fun f g hf hg h1 e1 e2 h => d4 f g (a4 f g hf hg h1 h) e1 e2,
+    fun f g hf hg h1 e1 e2 h => d5 f g (a5 f g hf hg h1 h) e1 e2⟩
+
+/-! ### "changing any one of these changes the signing bytes", with the collision named -/
 
 /-- **signBytes_sensitive.** For every scheme: two messages that differ in ANY bound value (one
-field or several) have different signing bytes, or a keccak collision exists. -/
+field or several) have different signing bytes, or THESE TWO pre-images (for `UpdateValset` also:
+these two checkpoint pre-images) are a keccak collision.  The disjunct is local — it names the
+colliding byte strings — so for a hash without a collision at those strings the first disjunct
+holds. -/
 theorem signBytes_sensitive (H : Hash) :
     (∀ f g : UVFields, UV.wf f = true → UV.wf g = true → UV.mustBind f ≠ UV.mustBind g →
-        UV.signBytes H f ≠ UV.signBytes H g ∨ Collision H) ∧
+        UV.signBytes H f ≠ UV.signBytes H g ∨ CollAt H (UV.preimage H f) (UV.preimage H g) ∨
+        CollAt H (UV.checkpointPre f) (UV.checkpointPre g)) ∧
     (∀ f g : SLCFields, SLC.wf f = true → SLC.wf g = true → SLC.mustBind f ≠ SLC.mustBind g →
-        SLC.signBytes H f ≠ SLC.signBytes H g ∨ Collision H) ∧
+        SLC.signBytes H f ≠ SLC.signBytes H g ∨ CollAt H (SLC.preimage f) (SLC.preimage g)) ∧
     (∀ f g : USCFields, USC.wf f = true → USC.wf g = true → USC.mustBind f ≠ USC.mustBind g →
-        USC.signBytes H f ≠ USC.signBytes H g ∨ Collision H) ∧
+        USC.signBytes H f ≠ USC.signBytes H g ∨ CollAt H (USC.preimage f) (USC.preimage g)) ∧
     (∀ f g : CHFields, CH.wf f = true → CH.wf g = true → CH.mustBind f ≠ CH.mustBind g →
-        CH.signBytes H f ≠ CH.signBytes H g ∨ Collision H) ∧
+        CH.signBytes H f ≠ CH.signBytes H g ∨ CollAt H (CH.preimage f) (CH.preimage g)) ∧
     (∀ f g : UPFields, UP.wf f = true → UP.wf g = true → f ≠ g →
-        UP.signBytes H f ≠ UP.signBytes H g ∨ Collision H) ∧
+        UP.signBytes H f ≠ UP.signBytes H g ∨ CollAt H (UP.preimage f) (UP.preimage g)) ∧
     (∀ f g : BatchFields, Batch.wf f = true → Batch.wf g = true → Batch.mustBind f ≠ Batch.mustBind g →
-        Batch.signBytes H f ≠ Batch.signBytes H g ∨ Collision H) := by
+        Batch.signBytes H f ≠ Batch.signBytes H g ∨ CollAt H (Batch.preimage f) (Batch.preimage g)) := by
   refine ⟨?_, ?_, ?_, ?_, ?_, ?_⟩
   · intro f g hf hg hne
-    rcases noColl_or_collision H (UV.preimage H f) (UV.preimage H g) with h1 | h1
-    · rcases noColl_or_collision H (UV.checkpointPre f) (UV.checkpointPre g) with h2 | h2
+    rcases noColl_or_collAt H (UV.preimage H f) (UV.preimage H g) with h1 | h1
+    · rcases noColl_or_collAt H (UV.checkpointPre f) (UV.checkpointPre g) with h2 | h2
       · exact .inl fun h => hne (uv_mustBind_covered H f g hf hg h1 h2 h)
-      · exact .inr h2
-    · exact .inr h1
+      · exact .inr (.inr h2)
+    · exact .inr (.inl h1)
   · intro f g hf hg hne
-    rcases noColl_or_collision H (SLC.preimage f) (SLC.preimage g) with h1 | h1
+    rcases noColl_or_collAt H (SLC.preimage f) (SLC.preimage g) with h1 | h1
     · exact .inl fun h => hne (slc_mustBind_covered H f g hf hg h1 h)
     · exact .inr h1
   · intro f g hf hg hne
-    rcases noColl_or_collision H (USC.preimage f) (USC.preimage g) with h1 | h1
+    rcases noColl_or_collAt H (USC.preimage f) (USC.preimage g) with h1 | h1
     · exact .inl fun h => hne (usc_mustBind_covered H f g hf hg h1 h)
     · exact .inr h1
   · intro f g hf hg hne
-    rcases noColl_or_collision H (CH.preimage f) (CH.preimage g) with h1 | h1
+    rcases noColl_or_collAt H (CH.preimage f) (CH.preimage g) with h1 | h1
     · exact .inl fun h => hne (ch_mustBind_covered H f g hf hg h1 h)
     · exact .inr h1
   · intro f g hf hg hne
-    rcases noColl_or_collision H (UP.preimage f) (UP.preimage g) with h1 | h1
+    rcases noColl_or_collAt H (UP.preimage f) (UP.preimage g) with h1 | h1
     · exact .inl fun h => hne (up_binds_bytecode_and_id H f g hf hg h1 h)
     · exact .inr h1
   · intro f g hf hg hne
-    rcases noColl_or_collision H (Batch.preimage f) (Batch.preimage g) with h1 | h1
+    rcases noColl_or_collAt H (Batch.preimage f) (Batch.preimage g) with h1 | h1
     · exact .inl fun h => hne (batch_mustBind_covered H f g hf hg h1 h)
     · exact .inr h1
 
-/-- **mustBind_covered_injective.** The literal "under `Injective H`" form asked for by the
-property plan, for all six schemes at once.  (For a real 32-byte digest the hypothesis is
-unsatisfiable; the statements above are the ones that carry weight.) -/
-theorem mustBind_covered_injective (H : Hash) (hinj : Function.Injective (digest H)) :
-    (∀ f g : UVFields, UV.wf f = true → UV.wf g = true →
-        UV.signBytes H f = UV.signBytes H g → UV.mustBind f = UV.mustBind g) ∧
-    (∀ f g : SLCFields, SLC.wf f = true → SLC.wf g = true →
-        SLC.signBytes H f = SLC.signBytes H g → SLC.mustBind f = SLC.mustBind g) ∧
-    (∀ f g : USCFields, USC.wf f = true → USC.wf g = true →
-        USC.signBytes H f = USC.signBytes H g → USC.mustBind f = USC.mustBind g) ∧
-    (∀ f g : CHFields, CH.wf f = true → CH.wf g = true →
-        CH.signBytes H f = CH.signBytes H g → CH.mustBind f = CH.mustBind g) ∧
-    (∀ f g : UPFields, UP.wf f = true → UP.wf g = true →
-        UP.signBytes H f = UP.signBytes H g → f = g) ∧
-    (∀ f g : BatchFields, Batch.wf f = true → Batch.wf g = true →
-        Batch.signBytes H f = Batch.signBytes H g → Batch.mustBind f = Batch.mustBind g) :=
-  ⟨fun f g hf hg => uv_mustBind_covered H f g hf hg (noColl_of_injective H hinj _ _) (noColl_of_injective H hinj _ _),
-   fun f g hf hg => slc_mustBind_covered H f g hf hg (noColl_of_injective H hinj _ _),
-   fun f g hf hg => usc_mustBind_covered H f g hf hg (noColl_of_injective H hinj _ _),
-   fun f g hf hg => ch_mustBind_covered H f g hf hg (noColl_of_injective H hinj _ _),
-   fun f g hf hg => up_binds_bytecode_and_id H f g hf hg (noColl_of_injective H hinj _ _),
-   fun f g hf hg => batch_mustBind_covered H f g hf hg (noColl_of_injective H hinj _ _)⟩
+/-- **digest_not_injective.** Why collision freedom is only ever assumed pointwise: NO hash has an
+injective 32-byte digest (pigeonhole on the 2^256 + 1 strings `0^i`).  Hence a hypothesis
+`Function.Injective (digest H)` is contradictory and a disjunct "or a collision exists" is always
+true; neither occurs in this file.  (Replaces the former `mustBind_covered_injective`, whose
+hypothesis was unsatisfiable.) -/
+theorem digest_not_injective (H : Hash) : ¬ Function.Injective (digest H) := by
+  intro hinj
+  obtain ⟨i, j, hij, _, e⟩ := pigeonhole W256 (fun i => digest H (List.replicate i 0))
+    (fun i _ => digest_lt H _)
+  have := congrArg List.length (hinj e)
+  simp only [List.length_replicate] at this
+  omega
 
 /-! ### signatures cannot move between ABI schemes -/
 
 /-- **cross_scheme_distinct.** "collected signatures can never authorise a different call": the
-pre-images of the five ABI schemes start with pairwise different 4-byte selectors, so a digest
-signed for one kind of call is never the digest of another kind (up to collisions). -/
+pre-images of the five ABI schemes (and the inner valset checkpoint) start with pairwise different
+4-byte selectors, so a digest signed for one kind of call is never the digest of another kind
+unless those two strings collide.  `UploadSmartContract` is NOT in this list: it has no selector,
+see `up_overlaps_every_scheme` (clause false) and `up_distinct_under_side_condition`. -/
 theorem cross_scheme_distinct (H : Hash) (u : UVFields) (s : SLCFields) (d : USCFields) (c : CHFields)
     (b : BatchFields) :
     UV.preimage H u ≠ SLC.preimage s ∧ UV.preimage H u ≠ USC.preimage d ∧
@@ -628,9 +1061,67 @@ theorem cross_scheme_distinct (H : Hash) (u : UVFields) (s : SLCFields) (d : USC
     SLC.preimage s ≠ USC.preimage d ∧ SLC.preimage s ≠ CH.preimage c ∧
     SLC.preimage s ≠ Batch.preimage b ∧ USC.preimage d ≠ CH.preimage c ∧
     USC.preimage d ≠ Batch.preimage b ∧ CH.preimage c ≠ Batch.preimage b ∧
-    UV.checkpointPre u ≠ UV.preimage H u := by
-  refine ⟨?_, ?_, ?_, ?_, ?_, ?_, ?_, ?_, ?_, ?_, ?_⟩ <;>
+    UV.checkpointPre u ≠ UV.preimage H u ∧ UV.checkpointPre u ≠ SLC.preimage s ∧
+    UV.checkpointPre u ≠ USC.preimage d ∧ UV.checkpointPre u ≠ CH.preimage c ∧
+    UV.checkpointPre u ≠ Batch.preimage b := by
+  refine ⟨?_, ?_, ?_, ?_, ?_, ?_, ?_, ?_, ?_, ?_, ?_, ?_, ?_, ?_, ?_⟩ <;>
     exact sel_append_ne (by decide) (by decide)
+
+/-! ### `UploadSmartContract` is NOT domain separated — the cross-action clause fails for it
+
+FULL-STRENGTH CLAUSE ("collected signatures can never authorise a different call"), Go level:
+```
+∀ H a b d, goItemWf a → goItemWf b → goItemDigest H a = some d → goItemDigest H b = some d →
+  (no collision at the two pre-images) → a.kind = b.kind
+```
+This is FALSE in the model and in /repo (`Message_UploadSmartContract.keccak256` hashes
+`bytecode ++ be64(id)` with no method id): `cross_action_clause_false_for_up` below, with the
+concrete witness `exUVItem` / `exUPForgery` in the non-vacuity section, replayed on the real
+implementation by `TestC05` (stat `observed:up-preimage-equals-update_valset-preimage`).
+The true statement needs the side condition `upSafe` (`go_digest_binds`). -/
+
+/-- **up_preimage_covers.** The strings hashed for `UploadSmartContract` messages are ALL byte
+strings of length ≥ 8: take the last 8 bytes as the message id and the rest as "bytecode". -/
+theorem up_preimage_covers (b : Bytes) (h : 8 ≤ b.length) :
+    ∃ u : UPFields, UP.wf u = true ∧ UP.preimage u = b := by
+  refine ⟨{ bytecode := b.take (b.length - 8), id := natOfBytes (b.drop (b.length - 8)) }, ?_, ?_⟩
+  · simp only [UP.wf, decide_eq_true_eq]
+    exact natOfBytes_lt_U64 _ (by rw [List.length_drop]; omega)
+  · simp only [UP.preimage]
+    rw [be8_natOfBytes _ (by rw [List.length_drop]; omega)]
+    exact List.take_append_drop _ _
+
+/-- **up_overlaps_every_scheme.** Consequently for EVERY well-typed message of each ABI scheme
+(and every batch) there is a well-formed `UploadSmartContract` message with literally the same
+hashed string — the same signing bytes under every hash, no collision involved. -/
+theorem up_overlaps_every_scheme (H : Hash) :
+    (∀ f : UVFields, UV.wf f = true → ∃ u : UPFields, UP.wf u = true ∧ UP.preimage u = UV.preimage H f) ∧
+    (∀ f : SLCFields, SLC.wf f = true → ∃ u : UPFields, UP.wf u = true ∧ UP.preimage u = SLC.preimage f) ∧
+    (∀ f : USCFields, USC.wf f = true → ∃ u : UPFields, UP.wf u = true ∧ UP.preimage u = USC.preimage f) ∧
+    (∀ f : CHFields, CH.wf f = true → ∃ u : UPFields, UP.wf u = true ∧ UP.preimage u = CH.preimage f) ∧
+    (∀ f : BatchFields, Batch.wf f = true →
+        ∃ u : UPFields, UP.wf u = true ∧ UP.preimage u = Batch.preimage f) :=
+  ⟨fun f hf => up_preimage_covers _ (sel_pre_length_ge _ _ _ (by decide) (by decide) (uv_signed_typed H f hf)),
+   fun f hf => up_preimage_covers _ (sel_pre_length_ge _ _ _ (by decide) (by decide) (slc_signed_typed f hf)),
+   fun f hf => up_preimage_covers _ (sel_pre_length_ge _ _ _ (by decide) (by decide) (usc_signed_typed f hf)),
+   fun f hf => up_preimage_covers _ (sel_pre_length_ge _ _ _ (by decide) (by decide) (ch_signed_typed f hf)),
+   fun f hf => up_preimage_covers _ (sel_pre_length_ge _ _ _ (by decide) (by decide) (batch_signed_typed f hf))⟩
+
+/-- **up_distinct_under_side_condition.** The best true statement for `UploadSmartContract`
+against the ABI schemes: if the hashed string `bytecode ++ be64(id)` does not START with the
+method id of a scheme, it is different from every pre-image of that scheme. -/
+theorem up_distinct_under_side_condition (H : Hash) (u : UPFields)
+    (hs : (UP.preimage u).take 4 ∉ schemeSelectors)
+    (v : UVFields) (s : SLCFields) (d : USCFields) (c : CHFields) (b : BatchFields) :
+    UP.preimage u ≠ UV.preimage H v ∧ UP.preimage u ≠ UV.checkpointPre v ∧
+    UP.preimage u ≠ SLC.preimage s ∧ UP.preimage u ≠ USC.preimage d ∧
+    UP.preimage u ≠ CH.preimage c ∧ UP.preimage u ≠ Batch.preimage b := by
+  refine ⟨?_, ?_, ?_, ?_, ?_, ?_⟩ <;>
+  · intro e
+    rw [e] at hs
+    exact hs (by simp [schemeSelectors, UV.preimage, UV.checkpointPre, SLC.preimage, USC.preimage,
+      CH.preimage, Batch.preimage, selCheckpoint, selUpdateValset, selLogicCall, selCompassUpdateBatch,
+      selDeployContract, selBatchCall])
 
 /-! ### defaulting: the deliberate collisions, and what IS injective -/
 
@@ -658,6 +1149,30 @@ a not-yet-estimated update with the value that was signed (300000) cannot be att
 theorem uv_estimate_default_not_delivered (f : UVFields) :
     UV.deliveredVals { f with estimate := 0 } ≠ UV.deliveredVals { f with estimate := 300000 } := by
   simp [UV.deliveredVals]
+
+/-- **estimate_default_collisions_all.** The same deliberate collision in the other two schemes
+that carry an estimate (`compass_update_batch`, `batch_call`): 0 and 300000 sign identically, and
+the delivered argument lists differ.  Together with `signBytes_binds_all_fields` (everything is
+bound up to `norm`) these are the ONLY identifications; `offered_estimate_elected` shows none of
+them reaches a delivered call. -/
+theorem estimate_default_collisions_all (c : CHFields) (b : BatchFields) :
+    CH.signedVals { c with estimate := 0 } = CH.signedVals { c with estimate := 300000 } ∧
+    CH.deliveredVals { c with estimate := 0 } ≠ CH.deliveredVals { c with estimate := 300000 } ∧
+    Batch.signedVals { b with estimate := 0 } = Batch.signedVals { b with estimate := 300000 } ∧
+    Batch.deliveredVals { b with estimate := 0 } ≠ Batch.deliveredVals { b with estimate := 300000 } := by
+  refine ⟨rfl, ?_, rfl, ?_⟩
+  · simp [CH.deliveredVals]
+  · simp [Batch.deliveredVals]
+
+/-- **fees_default_harmless.** The fee default, in both fee-carrying schemes: `nil` and the
+explicit default triple sign identically AND are delivered identically (both sides go through
+`feesOrDefault`), so this identification authorises nothing different. -/
+theorem fees_default_harmless (s : SLCFields) (u : USCFields) :
+    SLC.signedVals { s with fees := none } = SLC.signedVals { s with fees := some defaultFees } ∧
+    SLC.deliveredVals { s with fees := none } = SLC.deliveredVals { s with fees := some defaultFees } ∧
+    USC.signedVals { u with fees := none } = USC.signedVals { u with fees := some defaultFees } ∧
+    USC.deliveredVals { u with fees := none } = USC.deliveredVals { u with fees := some defaultFees } :=
+  ⟨rfl, rfl, rfl, rfl⟩
 
 /-- `effEstimate` is injective away from the default: two elected (non-zero) estimates that sign
 identically are equal. -/
@@ -759,12 +1274,667 @@ theorem go_conversions_lossless_where_it_matters :
         wordOfInt a = wordOfInt b → a = b) :=
   ⟨fun _ _ ha hb h => castI64_inj ha hb h, fun _ _ ha hb h => wordOfInt_inj ha hb h⟩
 
+/-! ### Go level: the entry points `goSignBytes` / `goBatchCheckpoint`, every branch -/
+
+/-- **goSignBytes_eq_itemDigest.** `Keccak256WithSignedMessage` is the digest of `goPreimage` when
+that exists, and panics exactly when it does not. -/
+theorem goSignBytes_eq_itemDigest (H : Hash) (m : GoMsg) (ctor : Bytes) :
+    (∀ d, goSignBytes H m = .hash d ↔ goItemDigest H (.msg m ctor) = some d) ∧
+    (goSignBytes H m = .panic ↔ goItemDigest H (.msg m ctor) = none) := by
+  obtain ⟨ts, rel, id, est, act⟩ := m
+  cases act with
+  | updateValset vs =>
+    simp [goSignBytes, goItemDigest, goItemPreimage, goPreimage, UV.signBytes]
+  | submitLogicCall c p fe s d =>
+    cases hs : padSender s <;>
+      simp [goSignBytes, goItemDigest, goItemPreimage, goPreimage, SLC.signBytes, hs]
+  | uploadSmartContract bc =>
+    simp [goSignBytes, goItemDigest, goItemPreimage, goPreimage, UP.signBytes]
+  | uploadUserSmartContract dep bc fe s d =>
+    cases hs : padSender s <;>
+      simp [goSignBytes, goItemDigest, goItemPreimage, goPreimage, USC.signBytes, hs]
+  | compassHandover cs d =>
+    simp [goSignBytes, goItemDigest, goItemPreimage, goPreimage, CH.signBytes]
+
+/-- **goSignBytes_panic_iff.** The `.panic` branch, characterised: signing panics iff the action is
+a logic call / user contract upload whose `SenderAddress` is longer than 32 bytes — and then
+`VerifyAgainstTX` has no argument list either (it panics on the same `bytes.Repeat`), so a message
+that cannot be signed cannot be attested and vice versa. -/
+theorem goSignBytes_panic_iff (H : Hash) (m : GoMsg) (ctor : Bytes) :
+    (goSignBytes H m = .panic ↔ senderTooLong m = true) ∧
+    (goItemDelivered (.msg m ctor) = none ↔ senderTooLong m = true) ∧
+    (goItemBound (.msg m ctor) = none ↔ senderTooLong m = true) := by
+  obtain ⟨ts, rel, id, est, act⟩ := m
+  cases act with
+  | updateValset vs => simp [goSignBytes, goItemDelivered, goItemBound, senderTooLong]
+  | submitLogicCall c p fe s d =>
+    by_cases hl : s.length > 32 <;>
+      simp [goSignBytes, goItemDelivered, goItemBound, senderTooLong, padSender, hl]
+  | uploadSmartContract bc => simp [goSignBytes, goItemDelivered, goItemBound, senderTooLong]
+  | uploadUserSmartContract dep bc fe s d =>
+    by_cases hl : s.length > 32 <;>
+      simp [goSignBytes, goItemDelivered, goItemBound, senderTooLong, padSender, hl]
+  | compassHandover cs d => simp [goSignBytes, goItemDelivered, goItemBound, senderTooLong]
+
+/-- **goBatchCheckpoint_eq_itemDigest.** `GetCheckpoint` is the digest of the `batch_call`
+pre-image when `ToInternal` accepts the batch, and returns an error (`none`) exactly when it does
+not: a token / destination / per-transfer token that is not an Ethereum address, or a negative
+amount.  Then nothing is bound and nothing can be delivered. -/
+theorem goBatchCheckpoint_eq_itemDigest (H : Hash) (ts : Bytes) (b : GoBatch) :
+    goBatchCheckpoint H ts b = goItemDigest H (.batch ts b) ∧
+    (goBatchCheckpoint H ts b = none ↔ batchValid b = false) ∧
+    (goItemDelivered (.batch ts b) = none ↔ batchValid b = false) ∧
+    (goItemBound (.batch ts b) = none ↔ batchValid b = false) := by
+  have hv : batchValid b = (validEthAddress b.token && b.dests.all validEthAddress &&
+      b.tokenOfTx.all validEthAddress && !(b.amounts.any (fun a => decide (a < 0)))) := rfl
+  unfold goBatchCheckpoint goItemDigest goItemPreimage goItemDelivered goItemBound
+  cases h1 : validEthAddress b.token <;> cases h2 : b.dests.all validEthAddress <;>
+    cases h3 : b.tokenOfTx.all validEthAddress <;> cases h4 : b.amounts.any (fun a => decide (a < 0)) <;>
+    simp [hv, h1, h2, h3, h4, Batch.signBytes]
+
+/-! #### views: every Go item of a kind is a well-typed record of that scheme -/
+
+theorem goWf_msg {ts rel : Bytes} {id est : Nat} {act : GoAction} {ctor : Bytes}
+    (hw : goItemWf (.msg ⟨ts, rel, id, est, act⟩ ctor) = true) :
+    GoRange ⟨ts, rel, id, est, act⟩ := by
+  simp only [goItemWf, Bool.and_eq_true, decide_eq_true_eq] at hw
+  exact ⟨hw.1.1, hw.1.2⟩
+
+/-- **view_uv.** -/
+theorem view_uv (a : GoItem) (hk : a.kind = .uv) :
+    ∃ f : UVFields, (goItemWf a = true → UV.wf f = true) ∧
+      (∀ H, goItemPreimage H a = some (UV.preimage H f)) ∧
+      goCheckpointPre a = some (UV.checkpointPre f) ∧
+      goItemBound a = some (UV.mustBind f) ∧
+      goItemDelivered a = some (.call .uv (UV.deliveredVals f)) ∧
+      (itemOffered a = true → f.estimate ≠ 0) := by
+  cases a with
+  | batch ts b => simp [GoItem.kind] at hk
+  | msg m ctor =>
+    obtain ⟨ts, rel, id, est, act⟩ := m
+    cases act with
+    | updateValset vs =>
+      refine ⟨uvFields ⟨ts, rel, id, est, .updateValset vs⟩ vs, ?_, fun H => rfl, rfl, rfl, rfl, ?_⟩
+      · intro hw
+        have hr := goWf_msg hw
+        simp only [goItemWf, Bool.and_eq_true, decide_eq_true_eq, List.all_eq_true] at hw
+        exact go_uv_wf _ vs hr hw.2.1.1.1 hw.2.1.1.2 hw.2.1.2 hw.2.2
+      · intro ho
+        simp only [itemOffered, hasGasEstimate, Bool.not_true, Bool.false_eq_true, ↓reduceIte,
+          decide_eq_true_eq] at ho
+        simp only [uvFields]
+        omega
+    | _ => simp [GoItem.kind, GoAction.kind] at hk
+
+/-- **view_slc.** -/
+theorem view_slc (a : GoItem) (hk : a.kind = .slc) :
+    ((∀ H, goItemPreimage H a = none) ∧ goItemBound a = none ∧ goItemDelivered a = none) ∨
+    ∃ f : SLCFields, (goItemWf a = true → SLC.wf f = true) ∧
+      (∀ H, goItemPreimage H a = some (SLC.preimage f)) ∧
+      goItemBound a = some (SLC.mustBind f) ∧
+      goItemDelivered a = some (.call .slc (SLC.deliveredVals f)) := by
+  cases a with
+  | batch ts b => simp [GoItem.kind] at hk
+  | msg m ctor =>
+    obtain ⟨ts, rel, id, est, act⟩ := m
+    cases act with
+    | submitLogicCall c p fe s d =>
+      cases hs : padSender s with
+      | none => exact .inl ⟨fun H => by simp [goItemPreimage, goPreimage, hs],
+          by simp [goItemBound, hs], by simp [goItemDelivered, hs]⟩
+      | some snd =>
+        refine .inr ⟨slcFields ⟨ts, rel, id, est, .submitLogicCall c p fe s d⟩ c p fe snd d, ?_,
+          fun H => by simp [goItemPreimage, goPreimage, hs], by simp [goItemBound, hs],
+          by simp [goItemDelivered, hs]⟩
+        intro hw
+        have hr := goWf_msg hw
+        simp only [goItemWf, Bool.and_eq_true, decide_eq_true_eq] at hw
+        exact go_slc_wf _ c p s fe d snd hr hw.2.1 hs hw.2.2
+    | _ => simp [GoItem.kind, GoAction.kind] at hk
+
+/-- **view_usc.** -/
+theorem view_usc (a : GoItem) (hk : a.kind = .usc) :
+    ((∀ H, goItemPreimage H a = none) ∧ goItemBound a = none ∧ goItemDelivered a = none) ∨
+    ∃ f : USCFields, (goItemWf a = true → USC.wf f = true) ∧
+      (∀ H, goItemPreimage H a = some (USC.preimage f)) ∧
+      goItemBound a = some (USC.mustBind f) ∧
+      goItemDelivered a = some (.call .usc (USC.deliveredVals f)) := by
+  cases a with
+  | batch ts b => simp [GoItem.kind] at hk
+  | msg m ctor =>
+    obtain ⟨ts, rel, id, est, act⟩ := m
+    cases act with
+    | uploadUserSmartContract dep bc fe s d =>
+      cases hs : padSender s with
+      | none => exact .inl ⟨fun H => by simp [goItemPreimage, goPreimage, hs],
+          by simp [goItemBound, hs], by simp [goItemDelivered, hs]⟩
+      | some snd =>
+        refine .inr ⟨uscFields ⟨ts, rel, id, est, .uploadUserSmartContract dep bc fe s d⟩ dep bc fe snd d, ?_,
+          fun H => by simp [goItemPreimage, goPreimage, hs], by simp [goItemBound, hs],
+          by simp [goItemDelivered, hs]⟩
+        intro hw
+        have hr := goWf_msg hw
+        simp only [goItemWf, Bool.and_eq_true, decide_eq_true_eq] at hw
+        exact go_usc_wf _ dep bc s fe d snd hr hw.2.1 hs hw.2.2
+    | _ => simp [GoItem.kind, GoAction.kind] at hk
+
+/-- **view_ch.** -/
+theorem view_ch (a : GoItem) (hk : a.kind = .ch) :
+    ∃ f : CHFields, (goItemWf a = true → CH.wf f = true) ∧
+      (∀ H, goItemPreimage H a = some (CH.preimage f)) ∧
+      goItemBound a = some (CH.mustBind f) ∧
+      goItemDelivered a = some (.call .ch (CH.deliveredVals f)) ∧
+      (itemOffered a = true → f.estimate ≠ 0) := by
+  cases a with
+  | batch ts b => simp [GoItem.kind] at hk
+  | msg m ctor =>
+    obtain ⟨ts, rel, id, est, act⟩ := m
+    cases act with
+    | compassHandover cs d =>
+      refine ⟨chFields ⟨ts, rel, id, est, .compassHandover cs d⟩ cs d, ?_, fun H => rfl, rfl, rfl, ?_⟩
+      · intro hw
+        have hr := goWf_msg hw
+        simp only [goItemWf, Bool.and_eq_true, decide_eq_true_eq, List.all_eq_true] at hw
+        exact go_ch_wf _ cs d hr hw.2.1 hw.2.2
+      · intro ho
+        simp only [itemOffered, hasGasEstimate, Bool.not_true, Bool.false_eq_true, ↓reduceIte,
+          decide_eq_true_eq] at ho
+        simp only [chFields]
+        omega
+    | _ => simp [GoItem.kind, GoAction.kind] at hk
+
+/-- **view_up.** -/
+theorem view_up (a : GoItem) (hk : a.kind = .up) :
+    ∃ (u : UPFields) (ctor : Bytes), (goItemWf a = true → UP.wf u = true) ∧
+      (∀ H, goItemPreimage H a = some (UP.preimage u)) ∧
+      goItemBound a = some [.bytes u.bytecode, .word u.id] ∧
+      goItemDelivered a = some (.create (UP.delivered u ctor)) ∧
+      (upSafe a = true → (UP.preimage u).take 4 ∉ schemeSelectors) := by
+  cases a with
+  | batch ts b => simp [GoItem.kind] at hk
+  | msg m ctor =>
+    obtain ⟨ts, rel, id, est, act⟩ := m
+    cases act with
+    | uploadSmartContract bc =>
+      refine ⟨{ bytecode := bc, id := id }, ctor, ?_, fun H => rfl, rfl, rfl, ?_⟩
+      · intro hw
+        have hr := goWf_msg hw
+        simp only [UP.wf, decide_eq_true_eq]
+        exact hr.id
+      · intro hs
+        simpa [upSafe, UP.preimage] using hs
+    | _ => simp [GoItem.kind, GoAction.kind] at hk
+
+/-- **view_batch.** -/
+theorem view_batch (a : GoItem) (hk : a.kind = .batch) :
+    ((∀ H, goItemPreimage H a = none) ∧ goItemBound a = none ∧ goItemDelivered a = none) ∨
+    ∃ f : BatchFields, (goItemWf a = true → Batch.wf f = true) ∧
+      (∀ H, goItemPreimage H a = some (Batch.preimage f)) ∧
+      goItemBound a = some (Batch.mustBind f) ∧
+      goItemDelivered a = some (.call .batch (Batch.deliveredVals f)) ∧
+      (itemOffered a = true → f.estimate ≠ 0) := by
+  cases a with
+  | msg m ctor =>
+    obtain ⟨ts, rel, id, est, act⟩ := m
+    cases act <;> simp [GoItem.kind, GoAction.kind] at hk
+  | batch ts b =>
+    cases hv : batchValid b with
+    | false => exact .inl ⟨fun H => by simp [goItemPreimage, hv], by simp [goItemBound, hv],
+        by simp [goItemDelivered, hv]⟩
+    | true =>
+      refine .inr ⟨batchFields ts b, ?_, fun H => by simp [goItemPreimage, hv], by simp [goItemBound, hv],
+        by simp [goItemDelivered, hv], ?_⟩
+      · intro hw
+        simp only [goItemWf, Bool.and_eq_true, decide_eq_true_eq, List.all_eq_true] at hw
+        exact go_batch_wf ts b hw.1.1.1.1.1 hw.1.1.1.1.2 hw.1.1.1.2 hw.1.1.2 hw.1.2 hw.2
+      · intro ho
+        simp only [itemOffered, batchOffered, Bool.not_eq_eq_eq_not, Bool.not_true,
+          decide_eq_false_iff_not] at ho
+        simp only [batchFields]
+        omega
+
+/-! #### kinds are told apart by the method id (given `upSafe`) -/
+
+theorem goItemPreimage_take4 (H : Hash) (a : GoItem) (p : Bytes) (hp : goItemPreimage H a = some p)
+    (hk : a.kind ≠ .up) : p.take 4 = kindSel a.kind := by
+  cases hka : a.kind with
+  | uv =>
+    obtain ⟨f, -, hpf, -⟩ := view_uv a hka
+    rw [hpf H] at hp
+    injection hp with hp
+    rw [← hp]; rfl
+  | slc =>
+    rcases view_slc a hka with ⟨hn, -⟩ | ⟨f, -, hpf, -⟩
+    · rw [hn H] at hp; cases hp
+    · rw [hpf H] at hp
+      injection hp with hp
+      rw [← hp]; rfl
+  | up => exact absurd hka hk
+  | usc =>
+    rcases view_usc a hka with ⟨hn, -⟩ | ⟨f, -, hpf, -⟩
+    · rw [hn H] at hp; cases hp
+    · rw [hpf H] at hp
+      injection hp with hp
+      rw [← hp]; rfl
+  | ch =>
+    obtain ⟨f, -, hpf, -⟩ := view_ch a hka
+    rw [hpf H] at hp
+    injection hp with hp
+    rw [← hp]; rfl
+  | batch =>
+    rcases view_batch a hka with ⟨hn, -⟩ | ⟨f, -, hpf, -⟩
+    · rw [hn H] at hp; cases hp
+    · rw [hpf H] at hp
+      injection hp with hp
+      rw [← hp]; rfl
+
+theorem kind_eq_of_same_preimage (H : Hash) (a b : GoItem) (p : Bytes)
+    (ha : goItemPreimage H a = some p) (hb : goItemPreimage H b = some p)
+    (hsa : upSafe a = true) (hsb : upSafe b = true) : a.kind = b.kind := by
+  by_cases h1 : a.kind = .up <;> by_cases h2 : b.kind = .up
+  · rw [h1, h2]
+  · exfalso
+    obtain ⟨u, c, -, hpu, -, -, hs⟩ := view_up a h1
+    have e : UP.preimage u = p := Option.some.inj ((hpu H).symm.trans ha)
+    have := hs hsa
+    rw [e, goItemPreimage_take4 H b p hb h2] at this
+    exact this (kindSel_mem _ h2)
+  · exfalso
+    obtain ⟨u, c, -, hpu, -, -, hs⟩ := view_up b h2
+    have e : UP.preimage u = p := Option.some.inj ((hpu H).symm.trans hb)
+    have := hs hsb
+    rw [e, goItemPreimage_take4 H a p ha h1] at this
+    exact this (kindSel_mem _ h1)
+  · exact kindSel_inj h1 h2
+      ((goItemPreimage_take4 H a p ha h1).symm.trans (goItemPreimage_take4 H b p hb h2))
+
+/-- **go_digest_binds.** C05 at the Go entry points, for all messages of every action type and all
+batches at once.  If two items (`goSignBytes … = .hash d` / `goBatchCheckpoint … = some d`, i.e.
+`goItemDigest … = some d` by the two theorems above) have the SAME signing bytes, then they are
+items of the same kind — a signature never moves between `update_valset`, `logic_call`,
+`deploy_contract`, `compass_update_batch`, `batch_call` and a compass deployment — and every value
+of the property text coincides (`goItemBound`: the `mustBind` list of the converted fields, which
+by `…_mustBind_eq_iff` is every field of the record).
+
+Hypotheses.  `goItemWf`: ranges of the Go types (`uint64`, slice lengths).  ASSUMPTION (keccak):
+no collision AT the two hashed strings, and at the two inner valset checkpoints.  SIDE CONDITION
+`upSafe`: a compass-deployment item's hashed string does not start with a scheme's method id —
+without it the statement is false (`cross_action_clause_false_for_up`).  The panic / rejected
+branches are excluded by `goItemDigest … = some d`; they are characterised in
+`goSignBytes_panic_iff` and `goBatchCheckpoint_eq_itemDigest`. -/
+theorem go_digest_binds (H : Hash) (a b : GoItem) (d : Nat)
+    (hwa : goItemWf a = true) (hwb : goItemWf b = true)
+    (hsa : upSafe a = true) (hsb : upSafe b = true)
+    (ha : goItemDigest H a = some d) (hb : goItemDigest H b = some d)
+    (hout : ∀ p q, goItemPreimage H a = some p → goItemPreimage H b = some q → NoColl H p q)
+    (hin : ∀ p q, goCheckpointPre a = some p → goCheckpointPre b = some q → NoColl H p q) :
+    a.kind = b.kind ∧ goItemBound a = goItemBound b ∧ goItemBound a ≠ none := by
+  obtain ⟨p, hp, rfl⟩ := goItemDigest_eq_some.1 ha
+  obtain ⟨q, hq, hd⟩ := goItemDigest_eq_some.1 hb
+  have hpq : p = q := hout p q hp hq hd
+  subst hpq
+  have hk := kind_eq_of_same_preimage H a b p hp hq hsa hsb
+  refine ⟨hk, ?_⟩
+  cases hka : a.kind with
+  | uv =>
+    obtain ⟨f, hwf, hpf, hcf, hbf, -, -⟩ := view_uv a hka
+    obtain ⟨g, hwg, hpg, hcg, hbg, -, -⟩ := view_uv b (hk ▸ hka)
+    have e1 : UV.preimage H f = p := Option.some.inj ((hpf H).symm.trans hp)
+    have e2 : UV.preimage H g = p := Option.some.inj ((hpg H).symm.trans hq)
+    have := uv_mustBind_covered H f g (hwf hwa) (hwg hwb) (fun _ => e1.trans e2.symm)
+      (hin _ _ hcf hcg) (by simp only [UV.signBytes, e1, e2])
+    rw [hbf, hbg, this]
+    exact ⟨rfl, by simp⟩
+  | slc =>
+    rcases view_slc a hka with ⟨hn, -⟩ | ⟨f, hwf, hpf, hbf, -⟩
+    · rw [hn H] at hp; cases hp
+    rcases view_slc b (hk ▸ hka) with ⟨hn, -⟩ | ⟨g, hwg, hpg, hbg, -⟩
+    · rw [hn H] at hq; cases hq
+    have e1 : SLC.preimage f = p := Option.some.inj ((hpf H).symm.trans hp)
+    have e2 : SLC.preimage g = p := Option.some.inj ((hpg H).symm.trans hq)
+    have := slc_mustBind_covered H f g (hwf hwa) (hwg hwb) (fun _ => e1.trans e2.symm)
+      (by simp only [SLC.signBytes, e1, e2])
+    rw [hbf, hbg, this]
+    exact ⟨rfl, by simp⟩
+  | up =>
+    obtain ⟨u, cu, hwu, hpu, hbu, -, -⟩ := view_up a hka
+    obtain ⟨v, cv, hwv, hpv, hbv, -, -⟩ := view_up b (hk ▸ hka)
+    have e1 : UP.preimage u = p := Option.some.inj ((hpu H).symm.trans hp)
+    have e2 : UP.preimage v = p := Option.some.inj ((hpv H).symm.trans hq)
+    have := up_binds_bytecode_and_id H u v (hwu hwa) (hwv hwb) (fun _ => e1.trans e2.symm)
+      (by simp only [UP.signBytes, e1, e2])
+    rw [hbu, hbv, this]
+    exact ⟨rfl, by simp⟩
+  | usc =>
+    rcases view_usc a hka with ⟨hn, -⟩ | ⟨f, hwf, hpf, hbf, -⟩
+    · rw [hn H] at hp; cases hp
+    rcases view_usc b (hk ▸ hka) with ⟨hn, -⟩ | ⟨g, hwg, hpg, hbg, -⟩
+    · rw [hn H] at hq; cases hq
+    have e1 : USC.preimage f = p := Option.some.inj ((hpf H).symm.trans hp)
+    have e2 : USC.preimage g = p := Option.some.inj ((hpg H).symm.trans hq)
+    have := usc_mustBind_covered H f g (hwf hwa) (hwg hwb) (fun _ => e1.trans e2.symm)
+      (by simp only [USC.signBytes, e1, e2])
+    rw [hbf, hbg, this]
+    exact ⟨rfl, by simp⟩
+  | ch =>
+    obtain ⟨f, hwf, hpf, hbf, -, -⟩ := view_ch a hka
+    obtain ⟨g, hwg, hpg, hbg, -, -⟩ := view_ch b (hk ▸ hka)
+    have e1 : CH.preimage f = p := Option.some.inj ((hpf H).symm.trans hp)
+    have e2 : CH.preimage g = p := Option.some.inj ((hpg H).symm.trans hq)
+    have := ch_mustBind_covered H f g (hwf hwa) (hwg hwb) (fun _ => e1.trans e2.symm)
+      (by simp only [CH.signBytes, e1, e2])
+    rw [hbf, hbg, this]
+    exact ⟨rfl, by simp⟩
+  | batch =>
+    rcases view_batch a hka with ⟨hn, -⟩ | ⟨f, hwf, hpf, hbf, -, -⟩
+    · rw [hn H] at hp; cases hp
+    rcases view_batch b (hk ▸ hka) with ⟨hn, -⟩ | ⟨g, hwg, hpg, hbg, -, -⟩
+    · rw [hn H] at hq; cases hq
+    have e1 : Batch.preimage f = p := Option.some.inj ((hpf H).symm.trans hp)
+    have e2 : Batch.preimage g = p := Option.some.inj ((hpg H).symm.trans hq)
+    have := batch_mustBind_covered H f g (hwf hwa) (hwg hwb) (fun _ => e1.trans e2.symm)
+      (by simp only [Batch.signBytes, e1, e2])
+    rw [hbf, hbg, this]
+    exact ⟨rfl, by simp⟩
+
+/-- **go_bound_determines_delivered.** Hash-free half: two items of the same kind (not a compass
+deployment) with the same bound values are handed to the remote contract with the same argument
+list, provided each was offered to relayers (`itemOffered`: the estimate of an `UpdateValset`,
+`CompassHandover` or batch has been elected — the relay filters of /repo offer nothing else). -/
+theorem go_bound_determines_delivered (a b : GoItem) (hk : a.kind = b.kind) (hup : a.kind ≠ .up)
+    (hbd : goItemBound a = goItemBound b) (hs : goItemBound a ≠ none)
+    (hoa : itemOffered a = true) (hob : itemOffered b = true) :
+    goItemDelivered a = goItemDelivered b ∧ goItemDelivered a ≠ none := by
+  obtain ⟨d1, d2, d3, d4, d5⟩ := delivered_of_norm
+  cases hka : a.kind with
+  | uv =>
+    obtain ⟨f, -, -, -, hbf, hdf, hof⟩ := view_uv a hka
+    obtain ⟨g, -, -, -, hbg, hdg, hog⟩ := view_uv b (hk ▸ hka)
+    rw [hbf, hbg] at hbd
+    rw [hdf, hdg, d1 f g ((uv_mustBind_eq_iff f g).1 (Option.some.inj hbd)) (hof hoa) (hog hob)]
+    exact ⟨rfl, by simp⟩
+  | slc =>
+    rcases view_slc a hka with ⟨-, hn, -⟩ | ⟨f, -, -, hbf, hdf⟩
+    · exact absurd hn hs
+    rcases view_slc b (hk ▸ hka) with ⟨-, hn, -⟩ | ⟨g, -, -, hbg, hdg⟩
+    · rw [hbf, hn] at hbd; cases hbd
+    rw [hbf, hbg] at hbd
+    rw [hdf, hdg, d2 f g ((slc_mustBind_eq_iff f g).1 (Option.some.inj hbd))]
+    exact ⟨rfl, by simp⟩
+  | up => exact absurd hka hup
+  | usc =>
+    rcases view_usc a hka with ⟨-, hn, -⟩ | ⟨f, -, -, hbf, hdf⟩
+    · exact absurd hn hs
+    rcases view_usc b (hk ▸ hka) with ⟨-, hn, -⟩ | ⟨g, -, -, hbg, hdg⟩
+    · rw [hbf, hn] at hbd; cases hbd
+    rw [hbf, hbg] at hbd
+    rw [hdf, hdg, d3 f g ((usc_mustBind_eq_iff f g).1 (Option.some.inj hbd))]
+    exact ⟨rfl, by simp⟩
+  | ch =>
+    obtain ⟨f, -, -, hbf, hdf, hof⟩ := view_ch a hka
+    obtain ⟨g, -, -, hbg, hdg, hog⟩ := view_ch b (hk ▸ hka)
+    rw [hbf, hbg] at hbd
+    rw [hdf, hdg, d4 f g ((ch_mustBind_eq_iff f g).1 (Option.some.inj hbd)) (hof hoa) (hog hob)]
+    exact ⟨rfl, by simp⟩
+  | batch =>
+    rcases view_batch a hka with ⟨-, hn, -⟩ | ⟨f, -, -, hbf, hdf, hof⟩
+    · exact absurd hn hs
+    rcases view_batch b (hk ▸ hka) with ⟨-, hn, -⟩ | ⟨g, -, -, hbg, hdg, hog⟩
+    · rw [hbf, hn] at hbd; cases hbd
+    rw [hbf, hbg] at hbd
+    rw [hdf, hdg, d5 f g ((batch_mustBind_eq_iff f g).1 (Option.some.inj hbd)) (hof hoa) (hog hob)]
+    exact ⟨rfl, by simp⟩
+
+/-- **go_digest_binds_delivered_partial.** The property's main clause at the Go entry points:
+collected signatures (one digest `d`) authorise exactly ONE delivered call — same compass method,
+same argument list — for every kind except a compass deployment.  `_partial` because
+(1) the side condition `upSafe` is needed (`cross_action_clause_false_for_up`) and
+(2) for `UploadSmartContract` the delivered creation data is NOT determined
+(`up_delivered_not_bound`); what is determined there is stated in `up_digest_binds_bytecode`. -/
+theorem go_digest_binds_delivered_partial (H : Hash) (a b : GoItem) (d : Nat)
+    (hwa : goItemWf a = true) (hwb : goItemWf b = true)
+    (hsa : upSafe a = true) (hsb : upSafe b = true)
+    (ha : goItemDigest H a = some d) (hb : goItemDigest H b = some d)
+    (hout : ∀ p q, goItemPreimage H a = some p → goItemPreimage H b = some q → NoColl H p q)
+    (hin : ∀ p q, goCheckpointPre a = some p → goCheckpointPre b = some q → NoColl H p q)
+    (hoa : itemOffered a = true) (hob : itemOffered b = true) (hup : a.kind ≠ .up) :
+    goItemDelivered a = goItemDelivered b ∧ goItemDelivered a ≠ none := by
+  obtain ⟨hk, hbd, hs⟩ := go_digest_binds H a b d hwa hwb hsa hsb ha hb hout hin
+  exact go_bound_determines_delivered a b hk hup hbd hs hoa hob
+
+/-- **goSignBytes_binds.** The same, spelled out on `Message.Keccak256WithSignedMessage` itself:
+two turnstone messages for which it returns the same hash `d` (neither panics) have the same
+action type, the same bound values, and — unless they are compass deployments — the same
+delivered call once offered to relayers. -/
+theorem goSignBytes_binds (H : Hash) (m m' : GoMsg) (c c' : Bytes) (d : Nat)
+    (hwa : goItemWf (.msg m c) = true) (hwb : goItemWf (.msg m' c') = true)
+    (hsa : upSafe (.msg m c) = true) (hsb : upSafe (.msg m' c') = true)
+    (ha : goSignBytes H m = .hash d) (hb : goSignBytes H m' = .hash d)
+    (hout : ∀ p q, goPreimage H m = some p → goPreimage H m' = some q → NoColl H p q)
+    (hin : ∀ p q, goCheckpointPre (.msg m c) = some p → goCheckpointPre (.msg m' c') = some q →
+      NoColl H p q) :
+    m.action.kind = m'.action.kind ∧ goItemBound (.msg m c) = goItemBound (.msg m' c') ∧
+    (m.action.kind ≠ .up → itemOffered (.msg m c) = true → itemOffered (.msg m' c') = true →
+      goItemDelivered (.msg m c) = goItemDelivered (.msg m' c') ∧ goItemDelivered (.msg m c) ≠ none) := by
+  have ha' := ((goSignBytes_eq_itemDigest H m c).1 d).1 ha
+  have hb' := ((goSignBytes_eq_itemDigest H m' c').1 d).1 hb
+  obtain ⟨hk, hbd, hs⟩ := go_digest_binds H _ _ d hwa hwb hsa hsb ha' hb' hout hin
+  exact ⟨hk, hbd, fun hup hoa hob => go_bound_determines_delivered _ _ hk hup hbd hs hoa hob⟩
+
+/-- **message_signature_never_authorises_batch.** Turnstone messages and skyway batches: a digest
+returned by `Keccak256WithSignedMessage` is never the checkpoint `GetCheckpoint` returns for a
+batch (no collision at the two hashed strings; `upSafe` for a compass deployment). -/
+theorem message_signature_never_authorises_batch (H : Hash) (m : GoMsg) (c ts : Bytes) (b : GoBatch)
+    (d : Nat) (hwa : goItemWf (.msg m c) = true) (hwb : goItemWf (.batch ts b) = true)
+    (hsa : upSafe (.msg m c) = true)
+    (ha : goSignBytes H m = .hash d) (hb : goBatchCheckpoint H ts b = some d)
+    (hout : ∀ p q, goPreimage H m = some p → goItemPreimage H (.batch ts b) = some q → NoColl H p q) :
+    False := by
+  have ha' := ((goSignBytes_eq_itemDigest H m c).1 d).1 ha
+  have hb' : goItemDigest H (.batch ts b) = some d := by
+    rw [← (goBatchCheckpoint_eq_itemDigest H ts b).1]
+    exact hb
+  obtain ⟨hk, -, -⟩ := go_digest_binds H _ _ d hwa hwb hsa rfl ha' hb' hout
+    (fun p q _ hq => by simp [goCheckpointPre] at hq)
+  obtain ⟨t, rel, id, est, act⟩ := m
+  cases act <;> simp [GoItem.kind, GoAction.kind] at hk
+
+/-- **up_digest_binds_bytecode.** For two compass deployments with the same signing bytes the
+delivered creation data start with the same bytecode (and the message ids agree); the
+constructor inputs that follow are unconstrained. -/
+theorem up_digest_binds_bytecode (H : Hash) (a b : GoItem) (d : Nat)
+    (hwa : goItemWf a = true) (hwb : goItemWf b = true) (hka : a.kind = .up) (hkb : b.kind = .up)
+    (ha : goItemDigest H a = some d) (hb : goItemDigest H b = some d)
+    (hout : ∀ p q, goItemPreimage H a = some p → goItemPreimage H b = some q → NoColl H p q) :
+    ∃ bc ca cb, goItemDelivered a = some (.create (bc ++ ca)) ∧
+      goItemDelivered b = some (.create (bc ++ cb)) := by
+  obtain ⟨p, hp, rfl⟩ := goItemDigest_eq_some.1 ha
+  obtain ⟨q, hq, hd⟩ := goItemDigest_eq_some.1 hb
+  have hpq : p = q := hout p q hp hq hd
+  subst hpq
+  obtain ⟨u, cu, hwu, hpu, -, hdu, -⟩ := view_up a hka
+  obtain ⟨v, cv, hwv, hpv, -, hdv, -⟩ := view_up b hkb
+  have e1 : UP.preimage u = p := Option.some.inj ((hpu H).symm.trans hp)
+  have e2 : UP.preimage v = p := Option.some.inj ((hpv H).symm.trans hq)
+  have := up_binds_bytecode_and_id H u v (hwu hwa) (hwv hwb) (fun _ => e1.trans e2.symm)
+    (by simp only [UP.signBytes, e1, e2])
+  subst this
+  exact ⟨u.bytecode, cu, cv, hdu, hdv⟩
+
+/-! #### what is false, with witnesses -/
+
+/-- **up_delivered_not_bound.** FULL-STRENGTH CLAUSE "the signing bytes depend on every value that
+is delivered" is FALSE for `UploadSmartContract`, in the model and in /repo
+(`Message_UploadSmartContract.keccak256` reads `Bytecode` and the queue id only): two messages
+that differ in the constructor input — which carries the new compass (deployment) id, the valset
+and the fee manager — and in relayer, turnstone id and estimate have the same signing bytes under
+every hash, yet different creation data is delivered.  Observed on the real code by `TestC05`
+(stat `observed:up-ignores-ctor-relayer-turnstone`, every `up` case). -/
+theorem up_delivered_not_bound (H : Hash) (m : GoMsg) (bc ctor ctor' rel' ts' : Bytes) (est' : Nat)
+    (hm : m.action = .uploadSmartContract bc) (hc : ctor ≠ ctor') :
+    goItemDigest H (.msg { m with relayer := rel', turnstoneId := ts', estimate := est' } ctor') =
+      goItemDigest H (.msg m ctor) ∧
+    goSignBytes H { m with relayer := rel', turnstoneId := ts', estimate := est' } = goSignBytes H m ∧
+    goItemDelivered (.msg { m with relayer := rel', turnstoneId := ts', estimate := est' } ctor') ≠
+      goItemDelivered (.msg m ctor) := by
+  obtain ⟨ts, rel, id, est, act⟩ := m
+  simp only at hm
+  subst hm
+  refine ⟨rfl, rfl, ?_⟩
+  simp only [goItemDelivered, UP.delivered, ne_eq, Option.some.injEq, Delivered.create.injEq,
+    List.append_cancel_left_eq]
+  exact fun e => hc e.symm
+
+/-- **up_forgery_exists.** For every non-deployment item that can be signed there is a well-formed
+`UploadSmartContract` item with literally the same hashed string — hence the same signing bytes
+under EVERY hash. -/
+theorem up_forgery_exists (H : Hash) (a : GoItem) (hw : goItemWf a = true) (hk : a.kind ≠ .up)
+    (p : Bytes) (hp : goItemPreimage H a = some p) :
+    ∃ b : GoItem, b.kind = .up ∧ goItemWf b = true ∧ goItemPreimage H b = some p := by
+  have hlen : 8 ≤ p.length := by
+    cases hka : a.kind with
+    | uv =>
+      obtain ⟨f, hwf, hpf, -⟩ := view_uv a hka
+      rw [← Option.some.inj ((hpf H).symm.trans hp)]
+      exact sel_pre_length_ge _ _ _ (by decide) (by decide) (uv_signed_typed H f (hwf hw))
+    | slc =>
+      rcases view_slc a hka with ⟨hn, -⟩ | ⟨f, hwf, hpf, -⟩
+      · rw [hn H] at hp; cases hp
+      rw [← Option.some.inj ((hpf H).symm.trans hp)]
+      exact sel_pre_length_ge _ _ _ (by decide) (by decide) (slc_signed_typed f (hwf hw))
+    | up => exact absurd hka hk
+    | usc =>
+      rcases view_usc a hka with ⟨hn, -⟩ | ⟨f, hwf, hpf, -⟩
+      · rw [hn H] at hp; cases hp
+      rw [← Option.some.inj ((hpf H).symm.trans hp)]
+      exact sel_pre_length_ge _ _ _ (by decide) (by decide) (usc_signed_typed f (hwf hw))
+    | ch =>
+      obtain ⟨f, hwf, hpf, -⟩ := view_ch a hka
+      rw [← Option.some.inj ((hpf H).symm.trans hp)]
+      exact sel_pre_length_ge _ _ _ (by decide) (by decide) (ch_signed_typed f (hwf hw))
+    | batch =>
+      rcases view_batch a hka with ⟨hn, -⟩ | ⟨f, hwf, hpf, -⟩
+      · rw [hn H] at hp; cases hp
+      rw [← Option.some.inj ((hpf H).symm.trans hp)]
+      exact sel_pre_length_ge _ _ _ (by decide) (by decide) (batch_signed_typed f (hwf hw))
+  obtain ⟨u, hwu, hpu⟩ := up_preimage_covers p hlen
+  refine ⟨.msg ⟨[], [], u.id, 0, .uploadSmartContract u.bytecode⟩ [], rfl, ?_, ?_⟩
+  · simp only [UP.wf, decide_eq_true_eq] at hwu
+    simp only [goItemWf, Bool.and_eq_true, decide_eq_true_eq, and_true]
+    exact ⟨hwu, U64_pos⟩
+  · simp only [goItemPreimage, goPreimage]
+    exact congrArg some hpu
+
+/-- witness for the failing cross-action clause: an `UpdateValset` of validator `0x2` (power 5,
+valset id 3) for compass "compass", relayer `0x1`, elected estimate 41 -/
+def exUVItem : GoItem :=
+  .msg ⟨[99, 111, 109, 112, 97, 115, 115], [49], 7, 41, .updateValset ⟨[[50]], [5], 3⟩⟩ []
+
+/-- **cross_action_clause_false_for_up.** The full-strength cross-action clause (no side condition
+on compass-deployment items) is FALSE: for the well-formed `UpdateValset` item `exUVItem` — and by
+`up_forgery_exists` for every signable item — there is a well-formed `UploadSmartContract` item
+hashing the very same byte string, so the two kinds share their signing bytes under every hash
+although no collision is involved (the `NoColl` hypotheses hold trivially: the strings are equal).
+A signature set collected for such a deployment message is a valid authorisation of
+`update_valset` on the remote compass.  Reproduced on the real implementation by `TestC05`
+(`observed:up-preimage-equals-update_valset-preimage`).  The "bytecode" of the forged message is
+92 bytes `9af2b8d2 ‖ checkpoint ‖ relayer ‖ 0^24` and must come from a governance proposal; nothing
+in /repo rejects it. -/
+theorem cross_action_clause_false_for_up :
+    ¬ (∀ (H : Hash) (a b : GoItem) (d : Nat), goItemWf a = true → goItemWf b = true →
+        goItemDigest H a = some d → goItemDigest H b = some d →
+        (∀ p q, goItemPreimage H a = some p → goItemPreimage H b = some q → NoColl H p q) →
+        (∀ p q, goCheckpointPre a = some p → goCheckpointPre b = some q → NoColl H p q) →
+        a.kind = b.kind) := by
+  intro hall
+  have hw : goItemWf exUVItem = true := by decide
+  obtain ⟨f, -, hpf, -⟩ := view_uv exUVItem rfl
+  obtain ⟨b, hkb, hwb, hpb⟩ := up_forgery_exists (fun _ => 0) exUVItem hw (by decide) _ (hpf _)
+  have hk := hall (fun _ => 0) exUVItem b _ hw hwb
+    (goItemDigest_eq_some.2 ⟨_, hpf _, rfl⟩) (goItemDigest_eq_some.2 ⟨_, hpb, rfl⟩)
+    (fun p q hp hq _ => by
+      rw [hpf] at hp
+      rw [hpb] at hq
+      exact (Option.some.inj hp).symm.trans (Option.some.inj hq))
+    (fun p q _ hq => by
+      have := goCheckpointPre_some_kind b q hq
+      rw [hkb] at this
+      cases this)
+  rw [hkb] at hk
+  exact absurd hk (by decide)
+
+/-- **go_digest_binds_message_id.** Link between the id counter and the signing bytes: for the
+three kinds whose scheme contains the message id (`logic_call`, `deploy_contract`, compass
+deployment) equal signing bytes force equal queue ids.  The id inside the signed record is
+`castI64 m.id` where `m.id` is `QueuedSignedMessage.Id`, the value `Put` returned; by
+`later_fresh_id_larger` two different `Put`s never return the same id, so two different queued
+messages of these kinds never share their signing bytes (ASSUMPTION: `NoColl` at the pre-images). -/
+theorem go_digest_binds_message_id (H : Hash) (m m' : GoMsg) (c c' : Bytes) (d : Nat)
+    (hwa : goItemWf (.msg m c) = true) (hwb : goItemWf (.msg m' c') = true)
+    (hsa : upSafe (.msg m c) = true) (hsb : upSafe (.msg m' c') = true)
+    (ha : goItemDigest H (.msg m c) = some d) (hb : goItemDigest H (.msg m' c') = some d)
+    (hout : ∀ p q, goItemPreimage H (.msg m c) = some p → goItemPreimage H (.msg m' c') = some q →
+      NoColl H p q)
+    (hkind : m.action.kind = .slc ∨ m.action.kind = .usc ∨ m.action.kind = .up) : m.id = m'.id := by
+  obtain ⟨hk, hbd, hs⟩ := go_digest_binds H _ _ d hwa hwb hsa hsb ha hb hout (fun p q hp _ => by
+    have := goCheckpointPre_some_kind _ p hp
+    simp only [GoItem.kind] at this
+    rw [this] at hkind
+    simp at hkind)
+  obtain ⟨ts, rel, id, est, act⟩ := m
+  obtain ⟨ts', rel', id', est', act'⟩ := m'
+  have hia : id < U64 := (goWf_msg hwa).id
+  have hib : id' < U64 := (goWf_msg hwb).id
+  simp only
+  cases act <;> cases act' <;> simp [GoItem.kind, GoAction.kind] at hk hkind
+  · rename_i c1 p1 fe1 s1 d1 c2 p2 fe2 s2 d2
+    simp only [goItemBound] at hbd hs
+    cases h1 : padSender s1 <;> cases h2 : padSender s2 <;> simp only [h1, h2] at hbd hs
+    · exact absurd rfl hs
+    · exact absurd rfl hs
+    · cases hbd
+    · simp only [SLC.mustBind, slcFields, Option.some.injEq, List.cons.injEq, V.word.injEq] at hbd
+      exact castI64_inj hia hib hbd.2.2.2.2.2.2.1
+  · simp only [goItemBound, Option.some.injEq, List.cons.injEq, V.word.injEq, and_true] at hbd
+    exact hbd.2
+  · rename_i c1 p1 fe1 s1 d1 c2 p2 fe2 s2 d2
+    simp only [goItemBound] at hbd hs
+    cases h1 : padSender s1 <;> cases h2 : padSender s2 <;> simp only [h1, h2] at hbd hs
+    · exact absurd rfl hs
+    · exact absurd rfl hs
+    · cases hbd
+    · simp only [USC.mustBind, uscFields, Option.some.injEq, List.cons.injEq, V.word.injEq] at hbd
+      exact castI64_inj hia hib hbd.2.2.2.2.2.2.1
+
+/-- **offered_estimate_elected.** Discharges the `estimate ≠ 0` proviso for everything that is
+delivered: `filters.HasGasEstimate` (a conjunct of `GetMessagesForRelaying`) lets a message that
+requires gas estimation through only with an elected estimate, the skyway `OutgoingTxBatches`
+query skips batches without one; and for an elected estimate the signed value IS the stored value
+(`effEstimate est = est`), so the 0 ≡ 300000 signing default never reaches a delivered call. -/
+theorem offered_estimate_elected :
+    (∀ est, hasGasEstimate true est = true ↔ est ≠ 0) ∧
+    (∀ est, batchOffered est = true ↔ est ≠ 0) ∧
+    (∀ est, est ≠ 0 → effEstimate est = est) ∧
+    (∀ est, hasGasEstimate false est = true) := by
+  refine ⟨?_, ?_, ?_, ?_⟩
+  · intro est
+    simp only [hasGasEstimate, Bool.not_true, Bool.false_eq_true, ↓reduceIte, decide_eq_true_eq]
+    omega
+  · intro est
+    simp only [batchOffered, Bool.not_eq_eq_eq_not, Bool.not_true, decide_eq_false_iff_not]
+    omega
+  · intro est h
+    simp [effEstimate, h]
+  · intro est
+    simp [hasGasEstimate]
+
 /-! ### message ids -/
 
 /-- **ids_strictly_increase.** Over every sequence of put / replace / remove operations on any
 number of queues (fewer than 2^64 of them: the counter is a `uint64`), the fresh ids handed out
 are strictly increasing in the order of issue (`issued` is newest first), start at 1 and never
-exceed the counter. -/
+exceed the counter.  (`issued` is the list of RETURNED fresh ids: `issued_is_returned_fresh_ids`;
+the statement on the returned ids themselves is `returned_fresh_ids_strictly_increase`.) -/
 theorem ids_strictly_increase (ops : List IdOp) (h : ops.length < U64) :
     (idRun {} ops).issued.Pairwise (· > ·) ∧
     ∀ i ∈ (idRun {} ops).issued, 1 ≤ i ∧ i ≤ (idRun {} ops).counter := by
@@ -837,6 +2007,127 @@ theorem ids_unique_across_queues (ops : List IdOp) (h : ops.length < U64) :
       exact absurd (List.mem_map.2 ⟨(q1, id), h1, rfl⟩) hn.1
     · exact ih hn.2 h1 h2
 
+/-! ### ids: statements about what `Put` RETURNS along a history
+
+`freshIds {} ops` is the list of ids returned by the fresh `Put`s of the history `ops`, in order —
+a function of the observable results (`idStep … .2`) only.  The state fields `issued` (a log),
+`counter` (the stored `GetLastID`) and `live` (the stored messages) are tied to it. -/
+
+/-- **issued_is_returned_fresh_ids.** The log `issued` is exactly the returned fresh ids (newest
+first): it is a function of the history, not a free ghost. -/
+theorem issued_is_returned_fresh_ids (ops : List IdOp) :
+    (idRun {} ops).issued = (freshIds {} ops).reverse := by
+  have := idRun_issued ops {}
+  simpa using this
+
+/-- **returned_fresh_ids_strictly_increase.** C05 "message ids … strictly increase for the lifetime
+of the chain": over every history of put / replace / remove operations on any queues (fewer than
+2^64 operations — ASSUMPTION, the counter is a `uint64`, see `id_counter_wrap_needed`), the ids
+returned by fresh `Put`s are strictly increasing in the order they were returned. -/
+theorem returned_fresh_ids_strictly_increase (ops : List IdOp) (h : ops.length < U64) :
+    (freshIds {} ops).Pairwise (· < ·) := by
+  have := (ids_strictly_increase ops h).1
+  rw [issued_is_returned_fresh_ids, List.pairwise_reverse] at this
+  exact this
+
+/-- **later_fresh_id_larger.** The same, split at an arbitrary point of the history: every id
+returned after the prefix `pre` is larger than every id returned during `pre` — whatever was
+replaced or removed in between.  In particular an id is never returned twice. -/
+theorem later_fresh_id_larger (pre post : List IdOp) (h : (pre ++ post).length < U64) (i j : Nat)
+    (hi : i ∈ freshIds {} pre) (hj : j ∈ freshIds (idRun {} pre) post) : i < j := by
+  have := returned_fresh_ids_strictly_increase (pre ++ post) h
+  rw [freshIds_append, List.pairwise_append] at this
+  exact this.2.2 i hi j hj
+
+/-- **counter_is_last_returned_id.** The stored counter (`GetLastID`) is the last id a fresh `Put`
+returned (0 before the first). -/
+theorem counter_is_last_returned_id (ops : List IdOp) (h : ops.length < U64) :
+    (freshIds {} ops = [] ∧ (idRun {} ops).counter = 0) ∨
+    (freshIds {} ops).getLast? = some (idRun {} ops).counter := by
+  have ht := (idRun_inv ops {} idInv_init (by simpa using h)).1.top
+  rw [issued_is_returned_fresh_ids] at ht
+  rcases ht with ⟨h1, h2⟩ | h1
+  · exact .inl ⟨by simpa using h1, h2⟩
+  · exact .inr (by simpa using h1)
+
+/-- **every_returned_id_was_issued.** EVERY `ok id` any operation returns — a fresh `Put`, a `Put`
+with `MsgIDToReplace`, a `Remove` — is an id some fresh `Put` of the history (this one included)
+returned: replace and remove never introduce an id. -/
+theorem every_returned_id_was_issued (pre : List IdOp) (op : IdOp) (id : Nat)
+    (h : (idStep (idRun {} pre) op).2 = .ok id) : id ∈ freshIds {} (pre ++ [op]) := by
+  rw [freshIds_append]
+  simp only [freshIds, List.append_nil, List.mem_append]
+  have hsub := idRun_live_sub pre {} (by simp)
+  have hiss := issued_is_returned_fresh_ids pre
+  generalize idRun {} pre = s at h hsub hiss ⊢
+  cases op with
+  | put q r =>
+    by_cases hr : r = 0
+    · right
+      subst hr
+      simp [freshOf, h]
+    · left
+      simp only [idStep, ne_eq, hr, not_false_eq_true, ↓reduceIte] at h
+      split at h
+      · rename_i hm
+        simp only [IdRes.ok.injEq] at h
+        subst h
+        have := hsub _ ((hasMsg_iff s q r).1 hm)
+        rw [hiss] at this
+        simpa using this
+      · simp at h
+  | remove q r =>
+    left
+    simp only [idStep] at h
+    split at h
+    · rename_i hm
+      simp only [IdRes.ok.injEq] at h
+      subst h
+      have := hsub _ ((hasMsg_iff s q r).1 hm)
+      rw [hiss] at this
+      simpa using this
+    · simp at h
+
+/-- **stored_id_provenance.** Every message stored in a queue after any history carries the id a
+fresh `Put` ON THAT QUEUE returned at some point of the history. -/
+theorem stored_id_provenance (ops : List IdOp) (q id : Nat) (h : (q, id) ∈ (idRun {} ops).live) :
+    ∃ pre post, ops = pre ++ .put q 0 :: post ∧ (idStep (idRun {} pre) (.put q 0)).2 = .ok id := by
+  rcases idRun_live_provenance ops {} q id h with h1 | h1
+  · simp at h1
+  · exact h1
+
+/-- **remove_spec.** `Remove`, both branches: `ok id` iff the message is stored in THAT queue, and
+then exactly that entry disappears; otherwise `notFound` and nothing changes.  The counter and the
+log are never touched: a removed id is not handed out again (`later_fresh_id_larger`). -/
+theorem remove_spec (s : IdSt) (q id : Nat) :
+    ((idStep s (.remove q id)).2 = .ok id ↔ (q, id) ∈ s.live) ∧
+    ((idStep s (.remove q id)).2 = .notFound ↔ (q, id) ∉ s.live) ∧
+    ((q, id) ∉ s.live → (idStep s (.remove q id)).1 = s) ∧
+    (∀ p, p ∈ (idStep s (.remove q id)).1.live ↔ p ∈ s.live ∧ p ≠ (q, id)) ∧
+    (idStep s (.remove q id)).1.issued = s.issued ∧ (idStep s (.remove q id)).1.counter = s.counter := by
+  by_cases hm : hasMsg s q id = true
+  · have hin := (hasMsg_iff s q id).1 hm
+    simp only [idStep, hm, ↓reduceIte, hin, not_true_eq_false, false_implies, and_true,
+      true_and, reduceCtorEq]
+    intro p
+    simp only [List.mem_filter, Bool.not_eq_eq_eq_not, Bool.not_true, Bool.and_eq_false_imp,
+      beq_iff_eq, beq_eq_false_iff_ne, ne_eq, and_congr_right_iff]
+    intro _
+    constructor
+    · intro h e
+      rw [e] at h
+      exact h rfl rfl
+    · intro h h1 h2
+      exact h (Prod.ext h1 h2)
+  · have hn : (q, id) ∉ s.live := fun h => hm ((hasMsg_iff s q id).2 h)
+    simp only [idStep, hm, Bool.false_eq_true, ↓reduceIte, hn, reduceCtorEq,
+      not_false_eq_true, implies_true, and_true, true_and]
+    intro p
+    constructor
+    · intro h
+      exact ⟨h, fun e => hn (e ▸ h)⟩
+    · exact fun h => h.1
+
 /-- **id_counter_wrap_needed.** The `< 2^64` bound cannot be dropped: the model (like the Go
 `uint64` counter) wraps, after which `Put` fails with `ErrUnableToSaveMessageWithoutID` and the
 next id issued is 1 again. -/
@@ -878,5 +2169,79 @@ example : wordOfInt (-1) = W256 - 1 := by decide
 -- a concrete id history over three queues: replace keeps the id, removal does not free it
 example : (idRun {} [.put 1 0, .put 2 0, .put 1 1, .remove 1 1, .put 3 0, .put 2 1]).live = [(3, 3), (2, 2)] ∧
     (idRun {} [.put 1 0, .put 2 0, .put 1 1, .remove 1 1, .put 3 0, .put 2 1]).issued = [3, 2, 1] := by decide
+
+/-! ### non-vacuity, Go level (through the entry points) -/
+
+set_option maxRecDepth 100000
+
+/-- a toy hash for closed examples (any function is a `Hash`; the theorems hold for all) -/
+def exH : Hash := fun b => b.length
+
+/-- two DIFFERENT Go logic-call messages (contract written "0x01" resp. "1", relayer "0xCC" resp.
+"cc") for queue id 2^64 − 1, no fees yet, 20-byte sender, deadline −1 -/
+def exSLCItemA : GoItem :=
+  .msg ⟨[99, 111, 109, 112, 97, 115, 115], [48, 120, 67, 67], 2 ^ 64 - 1, 0,
+    .submitLogicCall [48, 120, 48, 49] [1, 2, 3] none (List.replicate 20 7) (-1)⟩ []
+def exSLCItemB : GoItem :=
+  .msg ⟨[99, 111, 109, 112, 97, 115, 115], [99, 99], 2 ^ 64 - 1, 0,
+    .submitLogicCall [49] [1, 2, 3] (some defaultFees) (List.replicate 20 7) (-1)⟩ []
+
+-- every hypothesis of `go_digest_binds_delivered_partial` holds for this pair (the strings hashed
+-- are equal, so the `NoColl` hypotheses hold for every hash), and the conclusion is not trivial:
+-- the Go values differ, the delivered calls coincide
+example : goItemWf exSLCItemA = true ∧ goItemWf exSLCItemB = true ∧
+    upSafe exSLCItemA = true ∧ upSafe exSLCItemB = true ∧
+    itemOffered exSLCItemA = true ∧ itemOffered exSLCItemB = true ∧
+    exSLCItemA.kind = .slc ∧
+    goItemPreimage exH exSLCItemA = goItemPreimage exH exSLCItemB ∧
+    (goItemPreimage exH exSLCItemA).isSome = true := by decide
+
+/-- a batch of two transfers with an elected estimate -/
+def exBatchItem : GoItem :=
+  .batch [99] ⟨List.replicate 40 48, [List.replicate 40 49, List.replicate 40 50],
+    [List.replicate 40 48, List.replicate 40 48], [5, 0], 9, 2 ^ 63 + 1, [0x55], 21000⟩
+example : goItemWf exBatchItem = true ∧ itemOffered exBatchItem = true ∧ upSafe exBatchItem = true ∧
+    (goItemDigest exH exBatchItem).isSome = true ∧ (goItemDelivered exBatchItem).isSome = true := by decide
+-- the error branch: one negative amount
+example : goBatchCheckpoint exH [99] ⟨List.replicate 40 48, [List.replicate 40 49], [List.replicate 40 48],
+    [-1], 9, 1, [0x55], 21000⟩ = none := by decide
+-- the panic branch: a 33-byte sender
+example : goSignBytes exH ⟨[], [], 1, 0, .submitLogicCall [] [] none (List.replicate 33 1) 0⟩ = .panic := by
+  decide
+-- an `UpdateValset` without elected estimate is signable but not offered to relayers
+example : itemOffered (.msg ⟨[], [], 1, 0, .updateValset ⟨[], [], 1⟩⟩ []) = false ∧
+    itemOffered exUVItem = true := by decide
+
+/-- THE FORGERY (witness of `cross_action_clause_false_for_up`): the `UploadSmartContract` message
+whose "bytecode" is the first 92 bytes of the `update_valset` pre-image of `exUVItem` and whose
+queue id is that message's gas estimate, 41 -/
+def exUPForgery : GoItem :=
+  .msg ⟨[], [], 41, 0, .uploadSmartContract
+    (match goItemPreimage exH exUVItem with
+     | some p => p.take 92
+     | none => [])⟩ []
+
+example : goItemWf exUVItem = true ∧ goItemWf exUPForgery = true ∧
+    exUVItem.kind = .uv ∧ exUPForgery.kind = .up ∧
+    goItemPreimage exH exUPForgery = goItemPreimage exH exUVItem ∧
+    goItemDigest exH exUPForgery = goItemDigest exH exUVItem ∧
+    (goItemDigest exH exUVItem).isSome = true ∧
+    upSafe exUPForgery = false ∧ upSafe exUVItem = true := by decide
+
+-- a real-looking deployment (EVM init code starts with PUSH1 0x80 PUSH1 0x40 MSTORE) is `upSafe`
+example : upSafe (.msg ⟨[], [], 7, 0, .uploadSmartContract [0x60, 0x80, 0x60, 0x40, 0x52]⟩ []) = true := by
+  decide
+
+/-! ### non-vacuity, ids (through `idRun` / `idStep` from the initial state) -/
+
+def exOps : List IdOp :=
+  [.put 1 0, .put 2 0, .put 1 1, .remove 1 1, .put 3 0, .put 2 1, .remove 3 9, .put 1 0]
+
+-- the RETURNED results: replace keeps the id, a wrong-queue replace and a wrong remove are
+-- refused, a removed id is not handed out again
+example : idTrace {} exOps =
+    [.ok 1, .ok 2, .ok 1, .ok 1, .ok 3, .notFound, .notFound, .ok 4] := by decide
+example : freshIds {} exOps = [1, 2, 3, 4] ∧ (idRun {} exOps).issued = [4, 3, 2, 1] ∧
+    (idRun {} exOps).counter = 4 ∧ (idRun {} exOps).live = [(1, 4), (3, 3), (2, 2)] := by decide
 
 end Paloma.SignBytes
